@@ -152,91 +152,139 @@ Variable nodes : list node.
 Hypothesis wf : WF a nodes.
 
 Notation Inv := (Inv a nodes).
+Notation PInv := (PInv a nodes).
+Notation bkind := (bkind a nodes).
 Notation fop := (fop a nodes).
 Notation preset_of := (preset_of a nodes).
-Notation getter_of := (getter_of).
+Notation pers := (pers a).
 Notation srckey := (srckey nodes).
+Notation statekey_ok := (statekey_ok a).
+Notation trainer_in := (trainer_in nodes).
 
 (* ---- monotonicity ---------------------------------------------------------------------------------------- *)
-Lemma getter_mono T B T' B' i p k : incl B B' -> (forall c I, In (I, [KF c]) B -> arow T' (KF c) = arow T (KF c)) ->
-  getter_of T B i p k -> getter_of T' B' i p k.
-Proof. intros Hi Ha [c [I [E [Hin [Ho Hr]]]]]. exists c, I. repeat split; auto. rewrite (Ha c I Hin). exact Hr. Qed.
+Definition same_kf (T T' : tbl) (B : blocks) : Prop :=
+  forall c I, In (I, [KF c]) B -> iop I <> OCommitter -> arow T' (KF c) = arow T (KF c).
 
-Lemma srckey_mono T B T' B' ip k : incl B B' -> (forall c I, In (I, [KF c]) B -> arow T' (KF c) = arow T (KF c)) ->
-  srckey T B ip k -> srckey T' B' ip k.
+Lemma getter_mono T B T' B' i p k : incl B B' -> same_kf T T' B -> getter_of T B i p k -> getter_of T' B' i p k.
+Proof. intros Hi Ha [c [I [E [Hin [Ho Hr]]]]]. exists c, I. repeat split; auto. rewrite (Ha c I Hin) by (rewrite Ho; discriminate). exact Hr. Qed.
+
+Lemma srckey_mono T B T' B' ip k : incl B B' -> same_kf T T' B -> srckey T B ip k -> srckey T' B' ip k.
 Proof.
   intros Hi Ha [ndi [Hn H]]. exists ndi. split; [exact Hn|]. destruct H as [H|[Hz H]]; [left; exact H|right].
   split; [exact Hz|]. apply (getter_mono T B); assumption.
 Qed.
 
-Lemma bkind_mono Sf (Dn : nat -> nat -> Prop) T Sf' (Dn' : nat -> nat -> Prop) T' I ks : incl Sf Sf' ->
-  (forall c, ks = [KF c] -> arow T' (KF c) = arow T (KF c)) -> bkind a nodes Sf Dn T I ks -> bkind a nodes Sf' Dn' T' I ks.
+Lemma dumper_mono T B T' B' i k : incl B B' -> same_kf T T' B -> dumper_of T B i k -> dumper_of T' B' i k.
+Proof. intros Hi Ha [c [I [E [Hin [Ho Hr]]]]]. exists c, I. repeat split; auto. rewrite (Ha c I Hin) by (rewrite Ho; discriminate). exact Hr. Qed.
+
+Lemma loader_mono B B' g k : incl B B' -> loader_at B g k -> loader_at B' g k.
+Proof. intros Hi [I [Hin Ho]]. exists I. auto. Qed.
+
+Lemma statekey_mono B B' nd sk : incl B B' -> statekey_ok B nd sk -> statekey_ok B' nd sk.
+Proof. unfold C01Inv.statekey_ok. intros Hi. destruct (strain nd && pers nd); [|auto]. intros [X Y]. split; [exact X|apply (loader_mono B); assumption]. Qed.
+
+Lemma bkind_mono Sf T Sf' T' I ks : incl Sf Sf' ->
+  (forall k, ks = [k] -> (forall j, k <> KU j) -> iop I <> OCommitter -> arow T' k = arow T k) -> committer T' = committer T ->
+  bkind Sf T I ks -> bkind Sf' T' I ks.
 Proof.
-  intros Hs Ha H. destruct H as [i nd I Hi Hn Ho|i nd p c I Hdn Hn Ht Hz Hp Ho Hr].
+  intros Hs Ha Hc H. destruct H as [i nd I Hi Hn Ho|i nd p c I Hi Hn Ht Hz Hp Ho Hr|g k I Ho Hp Hr Hk|i nd c I Hn Hsp Ho Hr|c I Ho Hcm].
   - apply BFun; auto.
-  - apply (BGet a nodes Sf' Dn' T' i nd p c I); auto. rewrite (Ha c eq_refl). exact Hr.
+  - apply (BGet a nodes Sf' T' i nd p c I); auto. rewrite (Ha _ eq_refl); [exact Hr|intros j; discriminate|rewrite Ho; discriminate].
+  - apply (BLoad a nodes Sf' T' g k I); auto. rewrite (Ha _ eq_refl); [exact Hr| |rewrite Ho; discriminate]. intros j E. subst k. destruct Hk as [X|[c X]]; discriminate.
+  - apply (BDump a nodes Sf' T' i nd c I); auto. rewrite (Ha _ eq_refl); [exact Hr|intros j; discriminate|rewrite Ho; discriminate].
+  - apply (BComm a nodes Sf' T' c I); auto. rewrite Hc. exact Hcm.
+Qed.
+
+Lemma pinv_mono Sl Sd T B T' B' : incl B B' -> same_kf T T' B -> committer T' = committer T ->
+  (forall ck, committer T = Some ck -> arow T' ck = arow T ck) -> PInv Sl Sd T B -> PInv Sl Sd T' B'.
+Proof.
+  intros Hi Ha Hc Hck [P1 P2 P3 PC P4]. constructor.
+  - intros j nd Hj Hn Hp Ht. apply (loader_mono B); [exact Hi|exact (P1 j nd Hj Hn Hp Ht)].
+  - rewrite Hc. exact P2.
+  - rewrite Hc. intros ck Hcm. destruct (P3 ck Hcm) as [c [I [E [Hin Ho]]]]. exists c, I. auto.
+  - rewrite Hc. exact PC.
+  - rewrite Hc. intros ck l Hcm Hl.
+    destruct (P4 ck l Hcm Hl) as [Hlen Hoff]. unfold aget. rewrite (Hck ck Hcm). split; [exact Hlen|].
+    intros off. destruct (Hoff off) as [H1 H2]. split; [|exact H2].
+    intros i nd Hid Hn Hsp Ho. destruct (H1 i nd Hid Hn Hsp Ho) as [k [Hk Hdk]]. exists k. split; [exact Hk|].
+    apply (dumper_mono T B); assumption.
 Qed.
 
 (* ---- keys present in the index ------------------------------------------------------------------------------ *)
-Lemma ku_absent Sf Dn T B i : Inv Sf Dn T B -> ~ In i Sf -> instr_at T (KU i) = None.
+Lemma ku_absent Sl Sd Sf Dn T B i : Inv Sl Sd Sf Dn T B -> ~ In i Sf -> instr_at T (KU i) = None.
 Proof.
-  intros H Hi. unfold instr_at. rewrite (v_idx _ _ _ _ _ _ H). apply assoc_none. intros X.
+  intros H Hi. unfold instr_at. rewrite (v_idx _ _ _ _ _ _ _ _ H). apply assoc_none. intros X.
   apply expand_keys in X. destruct X as [[I ks] [Hb Hk]]. simpl in Hk.
-  destruct (v_kinds _ _ _ _ _ _ H I ks Hb) as [i' nd I0 Hi' Hn Ho|i' nd p c I0 Hd Hn Ht Hz Hp Ho Hr].
+  destruct (v_kinds _ _ _ _ _ _ _ _ H I ks Hb) as [i' nd I0 Hi' Hn Ho|i' nd p c I0 Hd Hn Ht Hz Hp Ho Hr|g k I0 Ho Hp Hr Hkk|i' nd c I0 Hn Hsp Ho Hr|c I0 Ho Hcm].
   - unfold fkeys in Hk. destruct Hk as [E|Hk]; [injection E as ->; contradiction|].
     destruct (strain nd); [destruct Hk as [E|[]]; discriminate|destruct Hk].
   - destruct Hk as [E|[]]. discriminate.
-Qed.
-
-Lemma kg_absent Sf Dn T B i nd : Inv Sf Dn T B -> ~ In i Sf -> nth_error nodes i = Some nd -> is_train nd = true ->
-  instr_at T (KG (ngid nd)) = None.
-Proof.
-  intros H Hi Hn Ht. unfold instr_at. rewrite (v_idx _ _ _ _ _ _ H). apply assoc_none. intros X.
-  apply expand_keys in X. destruct X as [[I ks] [Hb Hk]]. simpl in Hk.
-  destruct (v_kinds _ _ _ _ _ _ H I ks Hb) as [i' nd' I0 Hi' Hn' Ho|i' nd' p c I0 Hd Hn' Ht' Hz Hp Ho Hr].
-  - unfold fkeys in Hk. destruct Hk as [E|Hk]; [discriminate|].
-    destruct (strain nd') eqn:Es; [|destruct Hk]. destruct Hk as [E|[]]. injection E as E.
-    unfold strain in Es. apply andb_prop in Es. destruct Es as [_ Et'].
-    assert (i' = i) by (apply (w_unique a nodes wf i' nd' i nd Hn' Hn Et' Ht E)). subst. contradiction.
+  - destruct Hk as [E|[]]. subst k. destruct Hkk as [X|[c X]]; discriminate.
+  - destruct Hk as [E|[]]. discriminate.
   - destruct Hk as [E|[]]. discriminate.
 Qed.
 
-Lemma kf_fresh Sf Dn T B c : Inv Sf Dn T B -> next T <= c -> instr_at T (KF c) = None /\ arow T (KF c) = [] /\ prow T (KF c) = [].
+Lemma kg_entry Sl Sd Sf Dn T B g I : Inv Sl Sd Sf Dn T B -> instr_at T (KG g) = Some I ->
+  (exists i nd, In i Sf /\ nth_error nodes i = Some nd /\ strain nd = true /\ ngid nd = g /\ In (I, fkeys i nd) B)
+  \/ (iop I = OLoader g /\ In (I, [KG g]) B /\ persistent a g = true).
+Proof.
+  intros H X. unfold instr_at in X. rewrite (v_idx _ _ _ _ _ _ _ _ H) in X. apply assoc_in in X. apply expand_in in X.
+  destruct X as [ks [Hb Hk]].
+  destruct (v_kinds _ _ _ _ _ _ _ _ H I ks Hb) as [i' nd I0 Hi' Hn Ho|i' nd p c I0 Hd Hn Ht Hz Hp Ho Hr|g' k I0 Ho Hp Hr Hkk|i' nd c I0 Hn Hsp Ho Hr|c I0 Ho Hcm].
+  - left. unfold fkeys in Hk. destruct Hk as [E|Hk]; [discriminate|]. destruct (strain nd) eqn:Es; [|destruct Hk].
+    destruct Hk as [E|[]]. injection E as E. exists i', nd. repeat split; auto.
+  - destruct Hk as [E|[]]. discriminate.
+  - right. destruct Hk as [E|[]]. subst k. destruct Hkk as [X|[c X]]; [|discriminate]. injection X as <-. auto.
+  - destruct Hk as [E|[]]. discriminate.
+  - destruct Hk as [E|[]]. discriminate.
+Qed.
+
+Lemma kg_absent_nopers Sl Sd Sf Dn T B i nd : Inv Sl Sd Sf Dn T B -> ~ In i Sf -> nth_error nodes i = Some nd ->
+  is_train nd = true -> pers nd = false -> instr_at T (KG (ngid nd)) = None.
+Proof.
+  intros H Hi Hn Ht Hp. destruct (instr_at T (KG (ngid nd))) as [I|] eqn:E; [|reflexivity]. exfalso.
+  destruct (kg_entry _ _ _ _ _ _ _ _ H E) as [[i' [nd' [Hi' [Hn' [Hs [Hg _]]]]]]|[_ [_ Hpe]]].
+  - unfold strain in Hs. apply andb_prop in Hs. destruct Hs as [_ Ht'].
+    assert (i' = i) by (apply (w_unique a nodes wf i' nd' i nd Hn' Hn Ht' Ht Hg)). subst. contradiction.
+  - unfold C01Inv.pers in Hp. rewrite (w_train_stateful a nodes wf i nd Hn Ht), Hpe in Hp. discriminate.
+Qed.
+
+Lemma kf_fresh Sl Sd Sf Dn T B c : Inv Sl Sd Sf Dn T B -> next T <= c -> instr_at T (KF c) = None /\ arow T (KF c) = [] /\ prow T (KF c) = [].
 Proof.
   intros H Hc. assert (Hk : ~ In (KF c) (map fst (expand B))).
-  { intros X. apply (proj2 (v_next _ _ _ _ _ _ H)) in X. lia. }
+  { intros X. apply (proj2 (v_next _ _ _ _ _ _ _ _ H)) in X. lia. }
   split; [|split].
-  - unfold instr_at. rewrite (v_idx _ _ _ _ _ _ H). apply assoc_none. exact Hk.
+  - unfold instr_at. rewrite (v_idx _ _ _ _ _ _ _ _ H). apply assoc_none. exact Hk.
   - destruct (arow T (KF c)) eqn:E; [reflexivity|]. exfalso.
-    destruct (v_arows _ _ _ _ _ _ H (KF c)) as [[j [nd [X _]]]|X]; [rewrite E; discriminate|discriminate|contradiction].
+    destruct (v_arows _ _ _ _ _ _ _ _ H (KF c)) as [[j [nd [X _]]]|X]; [rewrite E; discriminate|discriminate|contradiction].
   - destruct (prow T (KF c)) eqn:E; [reflexivity|]. exfalso.
-    destruct (v_prows _ _ _ _ _ _ H (KF c)) as [j [_ X]]; [rewrite E; discriminate|discriminate].
+    destruct (v_prows _ _ _ _ _ _ _ _ H (KF c)) as [j [_ X]]; [rewrite E; discriminate|discriminate].
 Qed.
 
 (* ---- phase 3: preset prefix and functor registration ------------------------------------------------------ *)
-Definition reg_state (T : tbl) (i : nat) (nd : node) : tbl :=
-  let T1 := if preset_of i nd then prepend T (KU i) (KG (ngid nd)) else T in
+Definition reg_state (T : tbl) (i : nat) (nd : node) (sk : key) : tbl :=
+  let T1 := if preset_of i nd then prepend T (KU i) sk else T in
   let F := Instr (next T) (fop i nd) in
   Tbl (index T ++ (KU i, F) :: (if strain nd then [(KG (ngid nd), F)] else [])) (absl T) (pref T1) (committer T) (S (next T)).
 
-Lemma preset_nopers i nd : nth_error nodes i = Some nd -> preset_of i nd = nstateful nd && derived nodes i nd.
-Proof.
-  intros Hn. pose proof (w_nopers a nodes wf i nd Hn) as Hp. unfold C01Inv.preset_of. rewrite Hp. simpl. reflexivity.
-Qed.
+Definition finish (t : tbl) (i : nat) (n : node) (state : key) : option tbl :=
+  let pers := nstateful n && persistent a (ngid n) in
+  let preset := nstateful n && (pers || derived nodes i n) in
+  let t := if preset then prepend t (KU i) state else t in
+  let '(t, f) := alloc t (OFunctor i (nstateful n && is_train n) preset) in
+  bind (index_set t f (KU i)) (fun t =>
+  bind (if nstateful n && is_train n then index_set t f (KG (ngid n)) else Some t) (fun t =>
+  if is_train n then Some t else update nodes t i n)).
 
-Lemma add_unfold Sf Dn T B i nd : Inv Sf Dn T B -> ~ In i Sf -> nth_error nodes i = Some nd ->
-  add a nodes T i = if is_train nd then Some (reg_state T i nd) else update nodes (reg_state T i nd) i nd.
+Lemma finish_ok T i nd sk : nth_error nodes i = Some nd -> instr_at T (KU i) = None ->
+  (is_train nd = true -> instr_at T (KG (ngid nd)) = None) ->
+  finish T i nd sk = if is_train nd then Some (reg_state T i nd sk) else update nodes (reg_state T i nd sk) i nd.
 Proof.
-  intros H Hi Hn. unfold add. rewrite Hn. simpl.
-  pose proof (ku_absent _ _ _ _ _ H Hi) as Hku. unfold instr_at in Hku. rewrite Hku.
-  pose proof (w_nopers a nodes wf i nd Hn) as Hp. unfold pers in Hp. rewrite Hp. rewrite andb_false_r. simpl.
-  unfold reg_state, C01Inv.fop. rewrite (preset_nopers i nd Hn). unfold strain.
-  assert (Hkg : is_train nd = true -> assoc (KG (ngid nd)) (index T) = None).
-  { intros Et. exact (kg_absent _ _ _ _ _ _ H Hi Hn Et). }
+  intros Hn Hku Hkg. unfold finish, reg_state, C01Inv.fop, C01Inv.preset_of, C01Inv.pers, strain. unfold instr_at in *.
   assert (Hst : nstateful nd && is_train nd = is_train nd).
   { destruct (is_train nd) eqn:Et; [rewrite (w_train_stateful a nodes wf i nd Hn Et); reflexivity|apply andb_false_r]. }
   rewrite Hst.
-  destruct (nstateful nd && derived nodes i nd) eqn:Epre; unfold index_set; simpl; rewrite Hku; simpl;
+  destruct (nstateful nd && (nstateful nd && persistent a (ngid nd) || derived nodes i nd)) eqn:Epre; unfold index_set; simpl; rewrite Hku; simpl;
     destruct (is_train nd) eqn:Et; simpl.
   - rewrite assoc_app, (Hkg eq_refl). simpl. rewrite <- app_assoc. reflexivity.
   - reflexivity.
@@ -244,14 +292,14 @@ Proof.
   - reflexivity.
 Qed.
 
-Lemma reg_arow T i nd k : arow (reg_state T i nd) k = arow T k.
+Lemma reg_arow T i nd sk k : arow (reg_state T i nd sk) k = arow T k.
 Proof. reflexivity. Qed.
 
-Lemma reg_prow T i nd k : prow (reg_state T i nd) k =
-  if preset_of i nd && key_eqb k (KU i) then prow T (KU i) ++ [KG (ngid nd)] else prow T k.
+Lemma reg_prow T i nd sk k : prow (reg_state T i nd sk) k =
+  if preset_of i nd && key_eqb k (KU i) then prow T (KU i) ++ [sk] else prow T k.
 Proof.
   unfold reg_state. destruct (preset_of i nd); simpl; [|reflexivity].
-  change (prow (prepend T (KU i) (KG (ngid nd))) k = if key_eqb k (KU i) then prow T (KU i) ++ [KG (ngid nd)] else prow T k).
+  change (prow (prepend T (KU i) sk) k = if key_eqb k (KU i) then prow T (KU i) ++ [sk] else prow T k).
   apply prepend_prow.
 Qed.
 
@@ -259,69 +307,71 @@ Lemma expand_snoc_fun B F i nd :
   expand (B ++ [(F, fkeys i nd)]) = expand B ++ (KU i, F) :: (if strain nd then [(KG (ngid nd), F)] else []).
 Proof. rewrite expand_app. unfold expand at 2. simpl. rewrite app_nil_r. unfold fkeys. destruct (strain nd); reflexivity. Qed.
 
-Lemma reg_inv Sf Dn T B i nd : Inv Sf Dn T B -> ~ In i Sf -> nth_error nodes i = Some nd ->
-  Inv (i :: Sf) Dn (reg_state T i nd) (B ++ [(Instr (next T) (fop i nd), fkeys i nd)]).
+Lemma reg_inv Sl Sd Sf Dn T B i nd sk : Inv Sl Sd Sf Dn T B -> ~ In i Sf -> nth_error nodes i = Some nd ->
+  (is_train nd = true -> instr_at T (KG (ngid nd)) = None) -> (preset_of i nd = true -> statekey_ok B nd sk) ->
+  Inv Sl Sd (i :: Sf) Dn (reg_state T i nd sk) (B ++ [(Instr (next T) (fop i nd), fkeys i nd)]).
 Proof.
-  intros H Hi Hn. set (F := Instr (next T) (fop i nd)).
-  pose proof (ku_absent _ _ _ _ _ H Hi) as Hku.
+  intros H Hi Hn Hkg0 Hsk. set (F := Instr (next T) (fop i nd)).
+  pose proof (ku_absent _ _ _ _ _ _ _ H Hi) as Hku.
   assert (Hkg : strain nd = true -> instr_at T (KG (ngid nd)) = None).
-  { intros Es. unfold strain in Es. apply andb_prop in Es. exact (kg_absent _ _ _ _ _ _ H Hi Hn (proj2 Es)). }
+  { intros Es. unfold strain in Es. apply andb_prop in Es. exact (Hkg0 (proj2 Es)). }
   assert (Hinc : incl B (B ++ [(F, fkeys i nd)])) by (intros x Hx; apply in_or_app; left; exact Hx).
+  assert (Hsame : same_kf T (reg_state T i nd sk) B) by (intros c I _ _; reflexivity).
   assert (Hkeys : forall k, In k (map fst (expand (B ++ [(F, fkeys i nd)]))) <-> In k (map fst (expand B)) \/ In k (fkeys i nd)).
   { intros k. rewrite !expand_keys. split.
     - intros [b [Hb Hk]]. apply in_app_or in Hb. destruct Hb as [Hb|[<-|[]]]; [left; exists b; auto|right; exact Hk].
     - intros [[b [Hb Hk]]|Hk]; [exists b; split; [apply in_or_app; left; exact Hb|exact Hk]|].
       exists (F, fkeys i nd). split; [apply in_or_app; right; left; reflexivity|exact Hk]. }
   assert (Hnotin : forall k, In k (fkeys i nd) -> ~ In k (map fst (expand B))).
-  { intros k Hk X. rewrite <- (v_idx _ _ _ _ _ _ H) in X. apply (proj1 (assoc_none k (index T))) in X; [exact X|].
+  { intros k Hk X. rewrite <- (v_idx _ _ _ _ _ _ _ _ H) in X. apply (proj1 (assoc_none k (index T))) in X; [exact X|].
     unfold fkeys in Hk. destruct Hk as [<-|Hk]; [exact Hku|]. destruct (strain nd) eqn:Es; [|destruct Hk].
     destruct Hk as [<-|[]]. exact (Hkg eq_refl). }
   constructor.
-  - (* v_idx *) rewrite expand_snoc_fun. unfold reg_state. simpl. rewrite (v_idx _ _ _ _ _ _ H). reflexivity.
-  - (* v_ids *) rewrite map_app. simpl. apply NoDup_app_intro; [exact (v_ids _ _ _ _ _ _ H)|constructor; [intros []|constructor]|].
+  - (* v_idx *) rewrite expand_snoc_fun. unfold reg_state. simpl. rewrite (v_idx _ _ _ _ _ _ _ _ H). reflexivity.
+  - (* v_ids *) rewrite map_app. simpl. apply NoDup_app_intro; [exact (v_ids _ _ _ _ _ _ _ _ H)|constructor; [intros []|constructor]|].
     intros z Hz [<-|[]]. apply in_map_iff in Hz. destruct Hz as [b [E Hb]].
-    pose proof (proj1 (v_next _ _ _ _ _ _ H) b Hb) as X. unfold bid in *. simpl in E. lia.
-  - (* v_keys *) rewrite expand_snoc_fun, map_app. apply NoDup_app_intro; [exact (v_keys _ _ _ _ _ _ H)| |].
+    pose proof (proj1 (v_next _ _ _ _ _ _ _ _ H) b Hb) as X. unfold bid in *. simpl in E. lia.
+  - (* v_keys *) rewrite expand_snoc_fun, map_app. apply NoDup_app_intro; [exact (v_keys _ _ _ _ _ _ _ _ H)| |].
     + simpl. destruct (strain nd); simpl; repeat constructor; simpl; intuition discriminate.
     + intros z Hz Hz'. apply (Hnotin z); [|exact Hz]. unfold fkeys. simpl in Hz'.
       destruct Hz' as [<-|Hz']; [left; reflexivity|]. right. destruct (strain nd); [|destruct Hz']. simpl in Hz'. exact Hz'.
   - (* v_next *) split.
-    + intros b Hb. apply in_app_or in Hb. simpl. destruct Hb as [Hb|[<-|[]]]; [pose proof (proj1 (v_next _ _ _ _ _ _ H) b Hb); lia|unfold bid; simpl; lia].
-    + intros c Hc. apply Hkeys in Hc. simpl. destruct Hc as [Hc|Hc]; [pose proof (proj2 (v_next _ _ _ _ _ _ H) c Hc); lia|].
+    + intros b Hb. apply in_app_or in Hb. simpl. destruct Hb as [Hb|[<-|[]]]; [pose proof (proj1 (v_next _ _ _ _ _ _ _ _ H) b Hb); lia|unfold bid; simpl; lia].
+    + intros c Hc. apply Hkeys in Hc. simpl. destruct Hc as [Hc|Hc]; [pose proof (proj2 (v_next _ _ _ _ _ _ _ _ H) c Hc); lia|].
       unfold fkeys in Hc. destruct Hc as [E|Hc]; [discriminate|]. destruct (strain nd); [destruct Hc as [E|[]]; discriminate|destruct Hc].
-  - (* v_arows *) intros k Hk. rewrite reg_arow in Hk. destruct (v_arows _ _ _ _ _ _ H k Hk) as [X|X]; [left; exact X|right; apply Hkeys; left; exact X].
+  - (* v_arows *) intros k Hk. rewrite reg_arow in Hk. destruct (v_arows _ _ _ _ _ _ _ _ H k Hk) as [X|X]; [left; exact X|right; apply Hkeys; left; exact X].
   - (* v_prows *) intros k Hk. rewrite reg_prow in Hk. destruct (preset_of i nd && key_eqb k (KU i)) eqn:E.
     + apply andb_prop in E. destruct E as [_ E]. apply key_eqb_eq in E. exists i. split; [left; reflexivity|exact E].
-    + destruct (v_prows _ _ _ _ _ _ H k Hk) as [j [Hj E']]. exists j. split; [right; exact Hj|exact E'].
-  - (* v_anodup *) split; [exact (proj1 (v_anodup _ _ _ _ _ _ H))|]. unfold reg_state. simpl.
-    destruct (preset_of i nd); [unfold prepend; simpl; apply assoc_set_nodup|]; exact (proj2 (v_anodup _ _ _ _ _ _ H)).
-  - (* v_comm *) exact (v_comm _ _ _ _ _ _ H).
-  - (* v_rowsne *) split; [exact (proj1 (v_rowsne _ _ _ _ _ _ H))|].
+    + destruct (v_prows _ _ _ _ _ _ _ _ H k Hk) as [j [Hj E']]. exists j. split; [right; exact Hj|exact E'].
+  - (* v_anodup *) split; [exact (proj1 (v_anodup _ _ _ _ _ _ _ _ H))|]. unfold reg_state. simpl.
+    destruct (preset_of i nd); [unfold prepend; simpl; apply assoc_set_nodup|]; exact (proj2 (v_anodup _ _ _ _ _ _ _ _ H)).
+  - (* v_pers *) apply (pinv_mono Sl Sd T B); [exact Hinc|exact Hsame|reflexivity|intros ck _; reflexivity|exact (v_pers _ _ _ _ _ _ _ _ H)].
+  - (* v_rowsne *) split; [exact (proj1 (v_rowsne _ _ _ _ _ _ _ _ H))|].
     intros k Hk. rewrite reg_prow. unfold reg_state in Hk. simpl in Hk. destruct (preset_of i nd) eqn:Ep; simpl.
     + unfold prepend in Hk. simpl in Hk. apply assoc_set_keys in Hk. destruct (key_eqb k (KU i)) eqn:E.
       * intros X. apply app_eq_nil in X. destruct X as [_ X]. discriminate.
-      * destruct Hk as [->|Hk]; [rewrite key_eqb_refl in E; discriminate|]. exact (proj2 (v_rowsne _ _ _ _ _ _ H) k Hk).
-    + exact (proj2 (v_rowsne _ _ _ _ _ _ H) k Hk).
-  - (* v_kgrow *) exact (v_kgrow _ _ _ _ _ _ H).
+      * destruct Hk as [->|Hk]; [rewrite key_eqb_refl in E; discriminate|]. exact (proj2 (v_rowsne _ _ _ _ _ _ _ _ H) k Hk).
+    + exact (proj2 (v_rowsne _ _ _ _ _ _ _ _ H) k Hk).
+  - (* v_kgrow *) exact (v_kgrow _ _ _ _ _ _ _ _ H).
   - (* v_kinds *) intros I ks Hin. apply in_app_or in Hin. destruct Hin as [Hin|[E|[]]].
-    + apply (bkind_mono Sf Dn T); [intros x Hx; right; exact Hx|intros c _; reflexivity|exact (v_kinds _ _ _ _ _ _ H I ks Hin)].
-    + injection E as <- <-. apply (BFun a nodes (i :: Sf) Dn (reg_state T i nd) i nd F); [left; reflexivity|exact Hn|reflexivity].
+    + apply (bkind_mono Sf T); [intros x Hx; right; exact Hx|intros k _ _ _; reflexivity|reflexivity|exact (v_kinds _ _ _ _ _ _ _ _ H I ks Hin)].
+    + injection E as <- <-. apply (BFun a nodes (i :: Sf) (reg_state T i nd sk) i nd F); [left; reflexivity|exact Hn|reflexivity].
   - (* v_fun *) intros j [<-|Hj].
     + exists nd, F. split; [exact Hn|]. split; [apply in_or_app; right; left; reflexivity|reflexivity].
-    + destruct (v_fun _ _ _ _ _ _ H j Hj) as [ndj [I [Hnj [Hin Ho]]]]. exists ndj, I. split; [exact Hnj|]. split; [apply Hinc; exact Hin|exact Ho].
-  - (* v_get *) intros j ndj p Hd Hnj Ht Hz Hp. destruct (v_get _ _ _ _ _ _ H j ndj p Hd Hnj Ht Hz Hp) as [k Hk].
-    exists k. apply (getter_mono T B); [exact Hinc|intros c I _; reflexivity|exact Hk].
-  - (* v_rows *) intros j ndj Hnj. destruct (v_rows _ _ _ _ _ _ H j ndj Hnj) as [Hl Hq]. split; [exact Hl|].
+    + destruct (v_fun _ _ _ _ _ _ _ _ H j Hj) as [ndj [I [Hnj [Hin Ho]]]]. exists ndj, I. split; [exact Hnj|]. split; [apply Hinc; exact Hin|exact Ho].
+  - (* v_get *) intros j ndj p Hd Hnj Ht Hz Hp. destruct (v_get _ _ _ _ _ _ _ _ H j ndj p Hd Hnj Ht Hz Hp) as [k Hk].
+    exists k. apply (getter_mono T B); [exact Hinc|exact Hsame|exact Hk].
+  - (* v_rows *) intros j ndj Hnj. destruct (v_rows _ _ _ _ _ _ _ _ H j ndj Hnj) as [Hl Hq]. split; [exact Hl|].
     intros q ip Hip. destruct (Hq q ip Hip) as [H1 H2]. split; [|exact H2].
-    intros Hd. destruct (H1 Hd) as [k [Hk Hs]]. exists k. split; [exact Hk|]. apply (srckey_mono T B); [exact Hinc|intros c I _; reflexivity|exact Hs].
-  - (* v_pref *) intros j ndj Hnj. rewrite reg_prow. destruct (v_pref _ _ _ _ _ _ H j ndj Hnj) as [H1 H2].
+    intros Hd. destruct (H1 Hd) as [k [Hk Hs]]. exists k. split; [exact Hk|]. apply (srckey_mono T B); [exact Hinc|exact Hsame|exact Hs].
+  - (* v_pref *) intros j ndj Hnj. rewrite reg_prow. destruct (v_pref _ _ _ _ _ _ _ _ H j ndj Hnj) as [H1 H2].
     destruct (Nat.eq_dec j i) as [->|Hne].
     + rewrite Hn in Hnj. injection Hnj as <-. rewrite key_eqb_refl, andb_true_r. split.
-      * intros _ Hp. rewrite Hp. rewrite (H2 (or_introl Hi)). reflexivity.
+      * intros _ Hp. rewrite Hp. rewrite (H2 (or_introl Hi)). exists sk. split; [reflexivity|]. apply (statekey_mono B); [exact Hinc|exact (Hsk Hp)].
       * intros [X|X]; [exfalso; apply X; left; reflexivity|]. rewrite X. apply H2. left. exact Hi.
     + assert (E : key_eqb (KU j) (KU i) = false) by (apply key_eqb_neq; intros X; injection X as X; contradiction).
       rewrite E, andb_false_r. split.
-      * intros [X|X]; [exfalso; apply Hne; symmetry; exact X|]. apply H1. exact X.
+      * intros [X|X]; [exfalso; apply Hne; symmetry; exact X|]. intros Hp. destruct (H1 X Hp) as [sk' [E1 E2]]. exists sk'. split; [exact E1|apply (statekey_mono B); assumption].
       * intros [X|X]; [apply H2; left; intros Y; apply X; right; exact Y|apply H2; right; exact X].
 Qed.
 
@@ -346,48 +396,51 @@ Qed.
 Lemma prow_same T T' k : pref T' = pref T -> prow T' k = prow T k.
 Proof. unfold prow. intros ->. reflexivity. Qed.
 
-Lemma port_inv Sf (D : nat -> nat -> Prop) T B i nd p src :
-  Inv Sf D T B -> nth_error nodes i = Some nd -> ~ D i p ->
+Lemma port_inv Sl Sd Sf (D : nat -> nat -> Prop) T B i nd p src :
+  Inv Sl Sd Sf D T B -> nth_error nodes i = Some nd -> ~ D i p ->
   (forall T', (forall c, arow T' (KF c) = arow T (KF c)) -> srckey T' B (i, p) src) ->
   fold_opt (fun t s => insert t (KU (fst s)) src (Some (snd s))) (subscribers nodes i p) T = Some (ins_all T (port_slots i p src))
-  /\ Inv Sf (fun j p' => D j p' \/ (j = i /\ p' = p)) (ins_all T (port_slots i p src)) B.
+  /\ Inv Sl Sd Sf (fun j p' => D j p' \/ (j = i /\ p' = p)) (ins_all T (port_slots i p src)) B.
 Proof.
   intros H Hn Hnd Hsrc. set (L := port_slots i p src). set (T' := ins_all T L).
   destruct (ins_all_fields T L) as [Fi [Fp [Fc Fn]]]. fold T' in Fi, Fp, Fc, Fn.
   assert (Hkf : forall c, arow T' (KF c) = arow T (KF c)).
   { intros c. apply ins_all_arow_other. intros x Hx E. apply port_slots_in in Hx. destruct Hx as [j [q [ndj [-> _]]]]. discriminate E. }
+  assert (Hrowk : forall k, (forall j, k <> KU j) -> arow T' k = arow T k).
+  { intros k Hk. apply ins_all_arow_other. intros x Hx E. apply port_slots_in in Hx. destruct Hx as [j [q [ndj [-> _]]]]. exact (Hk j (eq_sym E)). }
   assert (Hfree : forall x, In x L -> aget T (s_ins x) (s_idx x) = None).
   { intros x Hx. apply port_slots_in in Hx. destruct Hx as [j [q [ndj [-> [Hnj Hq]]]]]. unfold s_ins, s_idx. simpl.
-    destruct (v_rows _ _ _ _ _ _ H j ndj Hnj) as [_ Hr]. apply (proj2 (Hr q (i, p) Hq)). exact Hnd. }
+    destruct (v_rows _ _ _ _ _ _ _ _ H j ndj Hnj) as [_ Hr]. apply (proj2 (Hr q (i, p) Hq)). exact Hnd. }
   split.
   - rewrite (fold_opt_map (fun t x => insert t (s_ins x) (s_arg x) (Some (s_idx x))) (fun s => ((KU (fst s), src), snd s))).
     apply fold_insert_ok; [apply port_slots_nodup|exact Hfree].
   - constructor.
-    + rewrite Fi. exact (v_idx _ _ _ _ _ _ H).
-    + exact (v_ids _ _ _ _ _ _ H).
-    + exact (v_keys _ _ _ _ _ _ H).
-    + rewrite Fn. exact (v_next _ _ _ _ _ _ H).
-    + intros k Hk. destruct (ins_all_nonempty T L k Hk) as [X|[x [Hx E]]]; [exact (v_arows _ _ _ _ _ _ H k X)|].
+    + rewrite Fi. exact (v_idx _ _ _ _ _ _ _ _ H).
+    + exact (v_ids _ _ _ _ _ _ _ _ H).
+    + exact (v_keys _ _ _ _ _ _ _ _ H).
+    + rewrite Fn. exact (v_next _ _ _ _ _ _ _ _ H).
+    + intros k Hk. destruct (ins_all_nonempty T L k Hk) as [X|[x [Hx E]]]; [exact (v_arows _ _ _ _ _ _ _ _ H k X)|].
       apply port_slots_in in Hx. destruct Hx as [j [q [ndj [-> [Hnj _]]]]]. left. exists j, ndj. split; [symmetry; exact E|exact Hnj].
-    + intros k Hk. rewrite (prow_same T T' k Fp) in Hk. exact (v_prows _ _ _ _ _ _ H k Hk).
-    + split; [apply ins_all_nodup; exact (proj1 (v_anodup _ _ _ _ _ _ H))|rewrite Fp; exact (proj2 (v_anodup _ _ _ _ _ _ H))].
-    + rewrite Fc. exact (v_comm _ _ _ _ _ _ H).
+    + intros k Hk. rewrite (prow_same T T' k Fp) in Hk. exact (v_prows _ _ _ _ _ _ _ _ H k Hk).
+    + split; [apply ins_all_nodup; exact (proj1 (v_anodup _ _ _ _ _ _ _ _ H))|rewrite Fp; exact (proj2 (v_anodup _ _ _ _ _ _ _ _ H))].
+    + apply (pinv_mono Sl Sd T B); [intros x Hx; exact Hx|intros c I _ _; apply Hkf|exact Fc|intros ck Hck; destruct (p_some _ _ _ _ _ _ (v_pers _ _ _ _ _ _ _ _ H) ck Hck) as [c [_ [-> _]]]; apply Hkf|exact (v_pers _ _ _ _ _ _ _ _ H)].
     + split.
       * intros k Hk. destruct (ins_all_keys T L k Hk) as [X|[x [Hx E]]].
-        -- intros Y. unfold T' in Y. apply (proj1 (v_rowsne _ _ _ _ _ _ H) k X). pose proof (ins_all_len_ge T L k) as Z. rewrite Y in Z. simpl in Z.
+        -- intros Y. unfold T' in Y. apply (proj1 (v_rowsne _ _ _ _ _ _ _ _ H) k X). pose proof (ins_all_len_ge T L k) as Z. rewrite Y in Z. simpl in Z.
            destruct (arow T k); [reflexivity|simpl in Z; lia].
         -- subst k. pose proof (ins_all_in T L x (port_slots_nodup i p src) Hx) as Z. unfold aget in Z.
            intros Y. unfold T' in Y. rewrite Y in Z. destruct (s_idx x); discriminate.
-      * intros k Hk. rewrite Fp in Hk. rewrite (prow_same T T' k Fp). exact (proj2 (v_rowsne _ _ _ _ _ _ H) k Hk).
-    + intros g. unfold T'. rewrite ins_all_arow_other; [exact (v_kgrow _ _ _ _ _ _ H g)|].
+      * intros k Hk. rewrite Fp in Hk. rewrite (prow_same T T' k Fp). exact (proj2 (v_rowsne _ _ _ _ _ _ _ _ H) k Hk).
+    + intros g. unfold T'. rewrite ins_all_arow_other; [exact (v_kgrow _ _ _ _ _ _ _ _ H g)|].
       intros x Hx E. apply port_slots_in in Hx. destruct Hx as [j [q [ndj [-> _]]]]. discriminate E.
-    + intros I ks Hin. apply (bkind_mono Sf D T); [intros x Hx; exact Hx|intros c _; apply Hkf|exact (v_kinds _ _ _ _ _ _ H I ks Hin)].
-    + exact (v_fun _ _ _ _ _ _ H).
+    + intros I ks Hin. apply (bkind_mono Sf T); [intros x Hx; exact Hx| |exact Fc|exact (v_kinds _ _ _ _ _ _ _ _ H I ks Hin)].
+      intros k _ Hk _. apply Hrowk. exact Hk.
+    + exact (v_fun _ _ _ _ _ _ _ _ H).
     + intros j ndj q [Hd|[-> ->]] Hnj Ht Hz Hq.
-      * destruct (v_get _ _ _ _ _ _ H j ndj q Hd Hnj Ht Hz Hq) as [k Hk]. exists k. apply (getter_mono T B); [intros x Hx; exact Hx|intros c I _; apply Hkf|exact Hk].
+      * destruct (v_get _ _ _ _ _ _ _ _ H j ndj q Hd Hnj Ht Hz Hq) as [k Hk]. exists k. apply (getter_mono T B); [intros x Hx; exact Hx|intros c I _ _; apply Hkf|exact Hk].
       * destruct (Hsrc T' Hkf) as [ndi [Hni [[Hone _]|[_ Hg]]]]; simpl in Hni; rewrite Hnj in Hni; injection Hni as <-; [contradiction|].
         exists src. exact Hg.
-    + intros j ndj Hnj. destruct (v_rows _ _ _ _ _ _ H j ndj Hnj) as [Hl Hr]. split.
+    + intros j ndj Hnj. destruct (v_rows _ _ _ _ _ _ _ _ H j ndj Hnj) as [Hl Hr]. split.
       * apply ins_all_len; [exact Hl|]. intros x Hx E. apply port_slots_in in Hx. destruct Hx as [j' [q [ndj' [-> [Hnj' Hq]]]]].
         unfold s_ins in E. simpl in E. injection E as ->. rewrite Hnj in Hnj'. injection Hnj' as <-.
         unfold s_idx. simpl. apply nth_error_Some. rewrite Hq. discriminate.
@@ -400,7 +453,7 @@ Proof.
         -- intros [Hd|[E1 E2]].
            ++ destruct (H1 Hd) as [k [Hk Hs]]. exists k. split.
               ** rewrite Hother; [exact Hk|]. intros ->. simpl in Hd. contradiction.
-              ** apply (srckey_mono T B); [intros x Hx; exact Hx|intros c I _; apply Hkf|exact Hs].
+              ** apply (srckey_mono T B); [intros x Hx; exact Hx|intros c I _ _; apply Hkf|exact Hs].
            ++ assert (ip = (i, p)) by (destruct ip; simpl in *; subst; reflexivity). subst ip.
               exists src. split; [|exact (Hsrc T' Hkf)].
               assert (Hx : In ((KU j, src), q) L) by (apply port_slots_in; exists j, q, ndj; auto).
@@ -408,70 +461,75 @@ Proof.
         -- intros Hd. rewrite Hother.
            ++ apply H2. intros X. apply Hd. left. exact X.
            ++ intros ->. apply Hd. right. auto.
-    + intros j ndj Hnj. rewrite (prow_same T T' (KU j) Fp). exact (v_pref _ _ _ _ _ _ H j ndj Hnj).
+    + intros j ndj Hnj. rewrite (prow_same T T' (KU j) Fp). exact (v_pref _ _ _ _ _ _ _ _ H j ndj Hnj).
 Qed.
 
 (* ---- phase 4, multi-output nodes: a Getter per output port --------------------------------------------- *)
-Definition getter_state (T : tbl) (i p : nat) : tbl :=
-  inserted (Tbl (index T ++ [(KF (S (next T)), Instr (next T) (OGetter p))]) (absl T) (pref T) (committer T) (S (S (next T))))
+Definition unary_state (T : tbl) (i : nat) (o : op) : tbl :=
+  inserted (Tbl (index T ++ [(KF (S (next T)), Instr (next T) o)]) (absl T) (pref T) (committer T) (S (S (next T))))
            (KF (S (next T))) (KU i) 0.
+Definition getter_state (T : tbl) (i p : nat) : tbl := unary_state T i (OGetter p).
 
-Lemma getter_reg_inv Sf (D : nat -> nat -> Prop) T B i nd p : Inv Sf D T B -> In i Sf -> nth_error nodes i = Some nd ->
-  is_train nd = false -> nszout nd <> 1 -> p < nszout nd ->
-  Inv Sf D (getter_state T i p) (B ++ [(Instr (next T) (OGetter p), [KF (S (next T))])])
-  /\ arow (getter_state T i p) (KF (S (next T))) = [Some (KU i)].
+Lemma unary_reg_inv Sl Sd Sf (D : nat -> nat -> Prop) T B i o : Inv Sl Sd Sf D T B ->
+  (arow (unary_state T i o) (KF (S (next T))) = [Some (KU i)] -> bkind Sf (unary_state T i o) (Instr (next T) o) [KF (S (next T))]) ->
+  Inv Sl Sd Sf D (unary_state T i o) (B ++ [(Instr (next T) o, [KF (S (next T))])])
+  /\ arow (unary_state T i o) (KF (S (next T))) = [Some (KU i)].
 Proof.
-  intros H Hi Hn Ht Hz Hp. set (kf := KF (S (next T))). set (G := Instr (next T) (OGetter p)).
-  destruct (kf_fresh _ _ _ _ (S (next T)) H ltac:(lia)) as [Hfi [Hfa Hfp]]. fold kf in Hfi, Hfa, Hfp.
-  assert (Hrow : arow (getter_state T i p) kf = [Some (KU i)]).
-  { unfold getter_state. rewrite inserted_arow, key_eqb_refl.
+  intros H Hkind. set (kf := KF (S (next T))). set (G := Instr (next T) o).
+  destruct (kf_fresh _ _ _ _ _ _ (S (next T)) H ltac:(lia)) as [Hfi [Hfa Hfp]]. fold kf in Hfi, Hfa, Hfp.
+  assert (Hrow : arow (unary_state T i o) kf = [Some (KU i)]).
+  { unfold unary_state. rewrite inserted_arow, key_eqb_refl.
     match goal with |- context [padded ?r 0] => change r with (arow T kf) end.
     rewrite Hfa. reflexivity. }
-  assert (Hold : forall k, k <> kf -> arow (getter_state T i p) k = arow T k).
-  { intros k Hk. unfold getter_state. rewrite inserted_arow. fold kf. apply key_eqb_neq in Hk. rewrite Hk. reflexivity. }
+  assert (Hold : forall k, k <> kf -> arow (unary_state T i o) k = arow T k).
+  { intros k Hk. unfold unary_state. rewrite inserted_arow. fold kf. apply key_eqb_neq in Hk. rewrite Hk. reflexivity. }
   assert (Hinc : incl B (B ++ [(G, [kf])])) by (intros x Hx; apply in_or_app; left; exact Hx).
   assert (Hkin : forall c I, In (I, [KF c]) B -> KF c <> kf).
   { intros c I Hin E. assert (X : In (KF c) (map fst (expand B))) by (apply expand_keys; exists (I, [KF c]); split; [exact Hin|left; reflexivity]).
-    apply (proj2 (v_next _ _ _ _ _ _ H)) in X. unfold kf in E. injection E as E. lia. }
+    apply (proj2 (v_next _ _ _ _ _ _ _ _ H)) in X. unfold kf in E. injection E as E. lia. }
   assert (Hkeys : forall k, In k (map fst (expand (B ++ [(G, [kf])]))) <-> In k (map fst (expand B)) \/ k = kf).
   { intros k. rewrite !expand_keys. split.
     - intros [b [Hb Hk]]. apply in_app_or in Hb. destruct Hb as [Hb|[<-|[]]]; [left; exists b; auto|right]. destruct Hk as [<-|[]]. reflexivity.
     - intros [[b [Hb Hk]]| ->]; [exists b; split; [apply in_or_app; left; exact Hb|exact Hk]|].
       exists (G, [kf]). split; [apply in_or_app; right; left; reflexivity|left; reflexivity]. }
   split; [|exact Hrow]. constructor.
-  - rewrite expand_app. unfold getter_state, inserted. simpl. rewrite (v_idx _ _ _ _ _ _ H). reflexivity.
-  - rewrite map_app. simpl. apply NoDup_app_intro; [exact (v_ids _ _ _ _ _ _ H)|constructor; [intros []|constructor]|].
+  - rewrite expand_app. unfold unary_state, inserted. simpl. rewrite (v_idx _ _ _ _ _ _ _ _ H). reflexivity.
+  - rewrite map_app. simpl. apply NoDup_app_intro; [exact (v_ids _ _ _ _ _ _ _ _ H)|constructor; [intros []|constructor]|].
     intros z Hzz [<-|[]]. apply in_map_iff in Hzz. destruct Hzz as [b [E Hb]].
-    pose proof (proj1 (v_next _ _ _ _ _ _ H) b Hb) as X. unfold bid in *. simpl in E. lia.
-  - rewrite expand_app, map_app. apply NoDup_app_intro; [exact (v_keys _ _ _ _ _ _ H)|simpl; constructor; [intros []|constructor]|].
-    intros z Hzz [<-|[]]. apply (proj2 (v_next _ _ _ _ _ _ H)) in Hzz. lia.
+    pose proof (proj1 (v_next _ _ _ _ _ _ _ _ H) b Hb) as X. unfold bid in *. simpl in E. lia.
+  - rewrite expand_app, map_app. apply NoDup_app_intro; [exact (v_keys _ _ _ _ _ _ _ _ H)|simpl; constructor; [intros []|constructor]|].
+    intros z Hzz [<-|[]]. apply (proj2 (v_next _ _ _ _ _ _ _ _ H)) in Hzz. lia.
   - split.
-    + intros b Hb. apply in_app_or in Hb. unfold getter_state, inserted. simpl.
-      destruct Hb as [Hb|[<-|[]]]; [pose proof (proj1 (v_next _ _ _ _ _ _ H) b Hb); lia|unfold bid; simpl; lia].
-    + intros c Hc. apply Hkeys in Hc. unfold getter_state, inserted. simpl.
-      destruct Hc as [Hc|Hc]; [pose proof (proj2 (v_next _ _ _ _ _ _ H) c Hc); lia|]. unfold kf in Hc. injection Hc as ->. lia.
+    + intros b Hb. apply in_app_or in Hb. unfold unary_state, inserted. simpl.
+      destruct Hb as [Hb|[<-|[]]]; [pose proof (proj1 (v_next _ _ _ _ _ _ _ _ H) b Hb); lia|unfold bid; simpl; lia].
+    + intros c Hc. apply Hkeys in Hc. unfold unary_state, inserted. simpl.
+      destruct Hc as [Hc|Hc]; [pose proof (proj2 (v_next _ _ _ _ _ _ _ _ H) c Hc); lia|]. unfold kf in Hc. injection Hc as ->. lia.
   - intros k Hk. destruct (key_eq_dec k kf) as [->|Hne]; [right; apply Hkeys; right; reflexivity|].
-    rewrite (Hold k Hne) in Hk. destruct (v_arows _ _ _ _ _ _ H k Hk) as [X|X]; [left; exact X|right; apply Hkeys; left; exact X].
-  - intros k Hk. exact (v_prows _ _ _ _ _ _ H k Hk).
-  - split; [unfold getter_state, inserted; simpl; apply assoc_set_nodup; exact (proj1 (v_anodup _ _ _ _ _ _ H))|exact (proj2 (v_anodup _ _ _ _ _ _ H))].
-  - exact (v_comm _ _ _ _ _ _ H).
-  - split; [|exact (proj2 (v_rowsne _ _ _ _ _ _ H))].
+    rewrite (Hold k Hne) in Hk. destruct (v_arows _ _ _ _ _ _ _ _ H k Hk) as [X|X]; [left; exact X|right; apply Hkeys; left; exact X].
+  - intros k Hk. exact (v_prows _ _ _ _ _ _ _ _ H k Hk).
+  - split; [unfold unary_state, inserted; simpl; apply assoc_set_nodup; exact (proj1 (v_anodup _ _ _ _ _ _ _ _ H))|exact (proj2 (v_anodup _ _ _ _ _ _ _ _ H))].
+  - apply (pinv_mono Sl Sd T B); [exact Hinc|intros c I Hin _; apply Hold; exact (Hkin c I Hin)|reflexivity| |exact (v_pers _ _ _ _ _ _ _ _ H)].
+    intros ck Hck. destruct (p_some _ _ _ _ _ _ (v_pers _ _ _ _ _ _ _ _ H) ck Hck) as [c [I [-> [Hin _]]]]. apply Hold. exact (Hkin c I Hin).
+  - split; [|exact (proj2 (v_rowsne _ _ _ _ _ _ _ _ H))].
     intros k Hk. destruct (key_eq_dec k kf) as [->|Hne]; [rewrite Hrow; discriminate|]. rewrite (Hold k Hne).
-    apply (proj1 (v_rowsne _ _ _ _ _ _ H)). unfold getter_state in Hk. apply inserted_keys in Hk. destruct Hk as [X|X]; [contradiction|exact X].
-  - intros g. rewrite Hold by discriminate. exact (v_kgrow _ _ _ _ _ _ H g).
+    apply (proj1 (v_rowsne _ _ _ _ _ _ _ _ H)). unfold unary_state in Hk. apply inserted_keys in Hk. destruct Hk as [X|X]; [contradiction|exact X].
+  - intros g. rewrite Hold by discriminate. exact (v_kgrow _ _ _ _ _ _ _ _ H g).
   - intros I ks Hin. apply in_app_or in Hin. destruct Hin as [Hin|[E|[]]].
-    + apply (bkind_mono Sf D T); [intros x Hx; exact Hx| |exact (v_kinds _ _ _ _ _ _ H I ks Hin)].
-      intros c ->. apply Hold. exact (Hkin c I Hin).
-    + injection E as <- <-. apply (BGet a nodes Sf D (getter_state T i p) i nd p (S (next T)) G); auto.
-  - intros j Hj. destruct (v_fun _ _ _ _ _ _ H j Hj) as [ndj [I [Hnj [Hin Ho]]]]. exists ndj, I. split; [exact Hnj|]. split; [apply Hinc; exact Hin|exact Ho].
-  - intros j ndj q Hd Hnj Htj Hzj Hq. destruct (v_get _ _ _ _ _ _ H j ndj q Hd Hnj Htj Hzj Hq) as [k Hk].
-    exists k. apply (getter_mono T B); [exact Hinc| |exact Hk]. intros c I Hin. apply Hold. exact (Hkin c I Hin).
-  - intros j ndj Hnj. destruct (v_rows _ _ _ _ _ _ H j ndj Hnj) as [Hl Hr].
-    assert (E : arow (getter_state T i p) (KU j) = arow T (KU j)) by (apply Hold; discriminate).
+    + apply (bkind_mono Sf T); [intros x Hx; exact Hx| |reflexivity|exact (v_kinds _ _ _ _ _ _ _ _ H I ks Hin)].
+      intros k -> _ _. apply Hold. intros E. subst k.
+      assert (X : In kf (map fst (expand B))) by (apply expand_keys; exists (I, [kf]); split; [exact Hin|left; reflexivity]).
+      apply (proj2 (v_next _ _ _ _ _ _ _ _ H)) in X. lia.
+    + injection E as <- <-. exact (Hkind Hrow).
+  - intros j Hj. destruct (v_fun _ _ _ _ _ _ _ _ H j Hj) as [ndj [I [Hnj [Hin Ho]]]]. exists ndj, I. split; [exact Hnj|]. split; [apply Hinc; exact Hin|exact Ho].
+  - intros j ndj q Hd Hnj Htj Hzj Hq. destruct (v_get _ _ _ _ _ _ _ _ H j ndj q Hd Hnj Htj Hzj Hq) as [k Hk].
+    exists k. apply (getter_mono T B); [exact Hinc| |exact Hk]. intros c I Hin _. apply Hold. exact (Hkin c I Hin).
+  - intros j ndj Hnj. destruct (v_rows _ _ _ _ _ _ _ _ H j ndj Hnj) as [Hl Hr].
+    assert (E : arow (unary_state T i o) (KU j) = arow T (KU j)) by (apply Hold; discriminate).
     split; [rewrite E; exact Hl|]. intros q ip Hip. destruct (Hr q ip Hip) as [H1 H2]. unfold aget. rewrite E. split; [|exact H2].
     intros Hd. destruct (H1 Hd) as [k [Hk Hs]]. exists k. split; [exact Hk|].
-    apply (srckey_mono T B); [exact Hinc| |exact Hs]. intros c I Hin. apply Hold. exact (Hkin c I Hin).
-  - intros j ndj Hnj. exact (v_pref _ _ _ _ _ _ H j ndj Hnj).
+    apply (srckey_mono T B); [exact Hinc| |exact Hs]. intros c I Hin _. apply Hold. exact (Hkin c I Hin).
+  - intros j ndj Hnj. destruct (v_pref _ _ _ _ _ _ _ _ H j ndj Hnj) as [P1 P2]. split; [|exact P2].
+    intros X Y. destruct (P1 X Y) as [sk [E1 E2]]. exists sk. split; [exact E1|apply (statekey_mono B); [exact Hinc|exact E2]].
 Qed.
 
 Lemma nth_error_seq s n m y : nth_error (seq s n) m = Some y -> y = s + m /\ m < n.
@@ -484,94 +542,541 @@ Qed.
 
 Definition Dnp (Dn : nat -> nat -> Prop) (i m : nat) : nat -> nat -> Prop := fun j p => Dn j p \/ (j = i /\ p < m).
 
-Lemma getter_body_ok Sf Dn T B i nd m : Inv Sf (Dnp Dn i m) T B -> In i Sf -> nth_error nodes i = Some nd ->
+Lemma getter_body_ok Sl Sd Sf Dn T B i nd m : Inv Sl Sd Sf (Dnp Dn i m) T B -> In i Sf -> nth_error nodes i = Some nd ->
   is_train nd = false -> nszout nd <> 1 -> m < nszout nd -> (forall p, ~ Dn i p) ->
   exists T' B',
     (let '(t1, g) := alloc T (OGetter m) in
      bind (index_fresh t1 g) (fun tk => let '(t2, source) := tk in
        bind (insert t2 source (KU i) None) (fun t3 =>
          fold_opt (fun t s => insert t (KU (fst s)) source (Some (snd s))) (subscribers nodes i m) t3))) = Some T'
-    /\ Inv Sf (Dnp Dn i (S m)) T' B'.
+    /\ Inv Sl Sd Sf (Dnp Dn i (S m)) T' B'.
 Proof.
   intros H Hi Hn Ht Hz Hm Hfresh.
-  destruct (kf_fresh _ _ _ _ (S (next T)) H ltac:(lia)) as [Hfi [Hfa Hfp]].
-  destruct (getter_reg_inv Sf (Dnp Dn i m) T B i nd m H Hi Hn Ht Hz Hm) as [H1 Hrow].
+  destruct (kf_fresh _ _ _ _ _ _ (S (next T)) H ltac:(lia)) as [Hfi [Hfa Hfp]].
+  destruct (unary_reg_inv Sl Sd Sf (Dnp Dn i m) T B i (OGetter m) H) as [H1 Hrow].
+  { intros Hr. apply (BGet a nodes Sf (unary_state T i (OGetter m)) i nd m (S (next T))); auto. }
+  change (unary_state T i (OGetter m)) with (getter_state T i m) in H1, Hrow.
   set (kf := KF (S (next T))) in *. set (G := Instr (next T) (OGetter m)) in *. set (B1 := B ++ [(G, [kf])]) in *.
   assert (Hnd : ~ Dnp Dn i m i m) by (intros [X|[_ X]]; [exact (Hfresh m X)|lia]).
   assert (Hsrc : forall T', (forall c, arow T' (KF c) = arow (getter_state T i m) (KF c)) -> srckey T' B1 (i, m) kf).
   { intros T' HT'. exists nd. split; [exact Hn|]. right. split; [exact Hz|]. exists (S (next T)), G.
     split; [reflexivity|]. split; [apply in_or_app; right; left; reflexivity|]. split; [reflexivity|]. rewrite HT'. exact Hrow. }
-  destruct (port_inv Sf (Dnp Dn i m) (getter_state T i m) B1 i nd m kf H1 Hn Hnd Hsrc) as [Hfold Hinv].
+  destruct (port_inv Sl Sd Sf (Dnp Dn i m) (getter_state T i m) B1 i nd m kf H1 Hn Hnd Hsrc) as [Hfold Hinv].
   exists (ins_all (getter_state T i m) (port_slots i m kf)), B1. split.
   - unfold alloc. unfold index_fresh, index_set. simpl. unfold instr_at in Hfi. fold kf. rewrite Hfi. simpl.
     rewrite insert_none_ok by exact Hfa. simpl. exact Hfold.
-  - apply (inv_ext a nodes wf Sf (fun j p' => Dnp Dn i m j p' \/ (j = i /\ p' = m))); [|exact Hinv].
+  - apply (inv_ext a nodes wf Sl Sd Sf (fun j p' => Dnp Dn i m j p' \/ (j = i /\ p' = m))); [|exact Hinv].
     intros j ndj p' _ _ _. unfold Dnp. split.
     + intros [[X|[X1 X2]]|[X1 X2]]; [left; exact X|right; split; [exact X1|lia]|right; split; [exact X1|lia]].
     + intros [X|[X1 X2]]; [left; left; exact X|]. destruct (Nat.eq_dec p' m) as [->|Hne]; [right; auto|left; right; split; [exact X1|lia]].
 Qed.
 
-Lemma update_inv Sf Dn T B i nd : Inv Sf Dn T B -> In i Sf -> nth_error nodes i = Some nd -> is_train nd = false ->
+Lemma update_inv Sl Sd Sf Dn T B i nd : Inv Sl Sd Sf Dn T B -> In i Sf -> nth_error nodes i = Some nd -> is_train nd = false ->
   (forall p, ~ Dn i p) ->
-  exists T' B', update nodes T i nd = Some T' /\ Inv Sf (Dnp Dn i (nszout nd)) T' B'.
+  exists T' B', update nodes T i nd = Some T' /\ Inv Sl Sd Sf (Dnp Dn i (nszout nd)) T' B'.
 Proof.
   intros H Hi Hn Ht Hfresh. unfold update.
   destruct (Nat.eq_dec (nszout nd) 1) as [E|Hz].
   - rewrite E.
     assert (Hsrc : forall T', (forall c, arow T' (KF c) = arow T (KF c)) -> srckey T' B (i, 0) (KU i)).
     { intros T' _. exists nd. split; [exact Hn|]. left. auto. }
-    destruct (port_inv Sf Dn T B i nd 0 (KU i) H Hn (Hfresh 0) Hsrc) as [Hfold Hinv].
+    destruct (port_inv Sl Sd Sf Dn T B i nd 0 (KU i) H Hn (Hfresh 0) Hsrc) as [Hfold Hinv].
     exists (ins_all T (port_slots i 0 (KU i))), B. split; [exact Hfold|].
-    apply (inv_ext a nodes wf Sf (fun j p' => Dn j p' \/ (j = i /\ p' = 0))); [|exact Hinv].
+    apply (inv_ext a nodes wf Sl Sd Sf (fun j p' => Dn j p' \/ (j = i /\ p' = 0))); [|exact Hinv].
     intros j ndj p' _ _ _. unfold Dnp. split; (intros [X|[X1 X2]]; [left; exact X|right; split; [exact X1|lia]]).
   - assert (Hloop : exists T', fold_opt (fun t p =>
         let '(t1, g) := alloc t (OGetter p) in
         bind (index_fresh t1 g) (fun tk => let '(t2, source) := tk in
           bind (insert t2 source (KU i) None) (fun t3 =>
             fold_opt (fun t s => insert t (KU (fst s)) source (Some (snd s))) (subscribers nodes i p) t3)))
-        (seq 0 (nszout nd)) T = Some T' /\ exists B', Inv Sf (Dnp Dn i (0 + List.length (seq 0 (nszout nd)))) T' B').
-    { apply (fold_opt_inv _ (fun m t => exists B', Inv Sf (Dnp Dn i m) t B')).
-      - exists B. apply (inv_ext a nodes wf Sf Dn); [|exact H]. intros j ndj p' _ _ _. unfold Dnp. split; [intros X; left; exact X|intros [X|[_ X]]; [exact X|lia]].
+        (seq 0 (nszout nd)) T = Some T' /\ exists B', Inv Sl Sd Sf (Dnp Dn i (0 + List.length (seq 0 (nszout nd)))) T' B').
+    { apply (fold_opt_inv _ (fun m t => exists B', Inv Sl Sd Sf (Dnp Dn i m) t B')).
+      - exists B. apply (inv_ext a nodes wf Sl Sd Sf Dn); [|exact H]. intros j ndj p' _ _ _. unfold Dnp. split; [intros X; left; exact X|intros [X|[_ X]]; [exact X|lia]].
       - intros m y t Hy [Bt Ht']. simpl in Ht'. destruct (nth_error_seq _ _ _ _ Hy) as [-> Hm]. simpl.
-        destruct (getter_body_ok Sf Dn t Bt i nd m Ht' Hi Hn Ht Hz Hm Hfresh) as [T' [B' [Hc Hi']]].
+        destruct (getter_body_ok Sl Sd Sf Dn t Bt i nd m Ht' Hi Hn Ht Hz Hm Hfresh) as [T' [B' [Hc Hi']]].
         exists T'. split; [exact Hc|exists B'; exact Hi']. }
     destruct Hloop as [T' [Hc [B' Hi']]]. rewrite seq_length in Hi'. simpl in Hi'.
     exists T', B'. split; [|exact Hi'].
     destruct (nszout nd) as [|[|k]] eqn:Ek; [exact Hc|exfalso; apply Hz; reflexivity|exact Hc].
 Qed.
 
-(* ---- one Table.add call, and the whole traversal ----------------------------------------------------------- *)
-Definition allp (S : list nat) : nat -> nat -> Prop := fun j _ => In j S.
-
-Lemma add_step S T B i nd : Inv S (allp S) T B -> ~ In i S -> nth_error nodes i = Some nd ->
-  exists T' B', add a nodes T i = Some T' /\ Inv (i :: S) (allp (i :: S)) T' B'.
+(* ---- registering one more single-key block (loader, re-keyed loader) -------------------------------------- *)
+Lemma inv_snoc1 Sl Sd Sf Dn T B I k n' : Inv Sl Sd Sf Dn T B -> ~ In (iid I) (map bid B) -> iid I < n' -> next T <= n' ->
+  instr_at T k = None -> (forall c, k = KF c -> c < n') -> bkind Sf T I [k] ->
+  Inv Sl Sd Sf Dn (Tbl (index T ++ [(k, I)]) (absl T) (pref T) (committer T) n') (B ++ [(I, [k])]).
 Proof.
-  intros H Hi Hn. rewrite (add_unfold S (allp S) T B i nd H Hi Hn).
-  pose proof (reg_inv S (allp S) T B i nd H Hi Hn) as H1.
+  intros H Hid Hlt Hn Hk Hkf Hkind.
+  set (T' := Tbl (index T ++ [(k, I)]) (absl T) (pref T) (committer T) n').
+  assert (Hinc : incl B (B ++ [(I, [k])])) by (intros x Hx; apply in_or_app; left; exact Hx).
+  assert (Hsame : same_kf T T' B) by (intros c J _ _; reflexivity).
+  assert (Hkeys : forall x, In x (map fst (expand (B ++ [(I, [k])]))) <-> In x (map fst (expand B)) \/ x = k).
+  { intros x. rewrite !expand_keys. split.
+    - intros [b [Hb Hx]]. apply in_app_or in Hb. destruct Hb as [Hb|[<-|[]]]; [left; exists b; auto|right]. destruct Hx as [<-|[]]. reflexivity.
+    - intros [[b [Hb Hx]]| ->]; [exists b; split; [apply in_or_app; left; exact Hb|exact Hx]|].
+      exists (I, [k]). split; [apply in_or_app; right; left; reflexivity|left; reflexivity]. }
+  assert (Hknew : ~ In k (map fst (expand B))).
+  { rewrite <- (v_idx _ _ _ _ _ _ _ _ H). apply assoc_none. exact Hk. }
+  constructor.
+  - unfold T'. simpl. rewrite expand_app, (v_idx _ _ _ _ _ _ _ _ H). reflexivity.
+  - rewrite map_app. simpl. apply NoDup_app_intro; [exact (v_ids _ _ _ _ _ _ _ _ H)|constructor; [intros []|constructor]|].
+    intros z Hz [<-|[]]. exact (Hid Hz).
+  - rewrite expand_app, map_app. apply NoDup_app_intro; [exact (v_keys _ _ _ _ _ _ _ _ H)|simpl; constructor; [intros []|constructor]|].
+    intros z Hz [<-|[]]. exact (Hknew Hz).
+  - split.
+    + intros b Hb. apply in_app_or in Hb. simpl. destruct Hb as [Hb|[<-|[]]]; [pose proof (proj1 (v_next _ _ _ _ _ _ _ _ H) b Hb); lia|unfold bid; simpl; lia].
+    + intros c Hc. apply Hkeys in Hc. simpl. destruct Hc as [Hc|Hc]; [pose proof (proj2 (v_next _ _ _ _ _ _ _ _ H) c Hc); lia|exact (Hkf c (eq_sym Hc))].
+  - intros x Hx. destruct (v_arows _ _ _ _ _ _ _ _ H x Hx) as [X|X]; [left; exact X|right; apply Hkeys; left; exact X].
+  - exact (v_prows _ _ _ _ _ _ _ _ H).
+  - exact (v_anodup _ _ _ _ _ _ _ _ H).
+  - apply (pinv_mono Sl Sd T B); [exact Hinc|exact Hsame|reflexivity|intros ck _; reflexivity|exact (v_pers _ _ _ _ _ _ _ _ H)].
+  - exact (v_rowsne _ _ _ _ _ _ _ _ H).
+  - exact (v_kgrow _ _ _ _ _ _ _ _ H).
+  - intros J ks Hin. apply in_app_or in Hin. destruct Hin as [Hin|[E|[]]].
+    + apply (bkind_mono Sf T); [intros x Hx; exact Hx|intros x _ _ _; reflexivity|reflexivity|exact (v_kinds _ _ _ _ _ _ _ _ H J ks Hin)].
+    + injection E as <- <-. apply (bkind_mono Sf T); [intros x Hx; exact Hx|intros x _ _ _; reflexivity|reflexivity|exact Hkind].
+  - intros j Hj. destruct (v_fun _ _ _ _ _ _ _ _ H j Hj) as [ndj [J [Hnj [Hin Ho]]]]. exists ndj, J. split; [exact Hnj|]. split; [apply Hinc; exact Hin|exact Ho].
+  - intros j ndj p Hd Hnj Ht Hz Hp. destruct (v_get _ _ _ _ _ _ _ _ H j ndj p Hd Hnj Ht Hz Hp) as [x Hx].
+    exists x. apply (getter_mono T B); [exact Hinc|exact Hsame|exact Hx].
+  - intros j ndj Hnj. destruct (v_rows _ _ _ _ _ _ _ _ H j ndj Hnj) as [Hl Hq]. split; [exact Hl|].
+    intros q ip Hip. destruct (Hq q ip Hip) as [H1 H2]. split; [|exact H2].
+    intros Hd. destruct (H1 Hd) as [x [Hx Hs]]. exists x. split; [exact Hx|]. apply (srckey_mono T B); [exact Hinc|exact Hsame|exact Hs].
+  - intros j ndj Hnj. destruct (v_pref _ _ _ _ _ _ _ _ H j ndj Hnj) as [P1 P2]. split; [|exact P2].
+    intros X Y. destruct (P1 X Y) as [sk [E1 E2]]. exists sk. split; [exact E1|apply (statekey_mono B); [exact Hinc|exact E2]].
+Qed.
+
+(* the loader phase for one more node only concerns the loader clause *)
+Lemma inv_sl Sl Sd Sf Dn T B i : Inv Sl Sd Sf Dn T B ->
+  (forall nd, nth_error nodes i = Some nd -> pers nd = true -> ~ trainer_in Sd (ngid nd) -> loader_at B (ngid nd) (KG (ngid nd))) ->
+  Inv (i :: Sl) Sd Sf Dn T B.
+Proof.
+  intros H Hl. destruct H as [V1 V2 V3 V4 V5 V6 V7 VP V9 V10 V11 V12 V13 V14 V15]. constructor; auto.
+  destruct VP as [P1 P2 P3 PC P4]. constructor; auto.
+  - intros j nd [<-|Hj] Hn Hp Ht; [exact (Hl nd Hn Hp Ht)|exact (P1 j nd Hj Hn Hp Ht)].
+  - intros ck Hck. destruct (PC ck Hck) as [j [nd [Hj X]]]. exists j, nd. split; [right; exact Hj|exact X].
+Qed.
+
+(* ---- phase 1: the loader ------------------------------------------------------------------------------------- *)
+Definition p1 (t : tbl) (n : node) : option tbl :=
+  if nstateful n && persistent a (ngid n) then
+    match assoc (KG (ngid n)) (index t) with
+    | Some _ => Some t
+    | None => let '(t1, l) := alloc t (OLoader (ngid n)) in index_set t1 l (KG (ngid n))
+    end
+  else Some t.
+
+Lemma p1_inv S0 Dn T B i nd : Inv S0 S0 S0 Dn T B -> ~ In i S0 -> nth_error nodes i = Some nd ->
+  exists T1 B1, p1 T nd = Some T1 /\ Inv (i :: S0) S0 S0 Dn T1 B1.
+Proof.
+  intros H Hi Hn. unfold p1. fold (C01Inv.pers a nd). destruct (pers nd) eqn:Ep.
+  - destruct (assoc (KG (ngid nd)) (index T)) as [I|] eqn:E.
+    + exists T, B. split; [reflexivity|]. apply inv_sl; [exact H|]. intros nd' Hn' _ Htr. rewrite Hn in Hn'. injection Hn' as <-.
+      destruct (kg_entry _ _ _ _ _ _ _ _ H E) as [[i' [nd' [Hi' [Hn' [Hs [Hg _]]]]]]|[Ho [Hin _]]].
+      * exfalso. apply Htr. exists i', nd'. unfold strain in Hs. apply andb_prop in Hs. tauto.
+      * exists I. auto.
+    + assert (Hpa : persistent a (ngid nd) = true) by (unfold C01Inv.pers in Ep; apply andb_prop in Ep; tauto).
+      set (L := Instr (next T) (OLoader (ngid nd))).
+      exists (Tbl (index T ++ [(KG (ngid nd), L)]) (absl T) (pref T) (committer T) (S (next T))), (B ++ [(L, [KG (ngid nd)])]).
+      split; [unfold alloc, index_set; simpl; rewrite E; reflexivity|].
+      apply inv_sl.
+      * apply inv_snoc1; [exact H| |simpl; lia|lia|exact E|intros c X; discriminate|].
+        -- intros X. apply in_map_iff in X. destruct X as [b [Eb Hb]]. pose proof (proj1 (v_next _ _ _ _ _ _ _ _ H) b Hb). simpl in Eb. lia.
+        -- apply (BLoad a nodes S0 T (ngid nd) (KG (ngid nd)) L); [reflexivity|exact Hpa|exact (v_kgrow _ _ _ _ _ _ _ _ H _)|left; reflexivity].
+      * intros nd' Hn' _ _. rewrite Hn in Hn'. injection Hn' as <-. exists L. split; [apply in_or_app; right; left; reflexivity|reflexivity].
+  - exists T, B. split; [reflexivity|]. apply inv_sl; [exact H|]. intros nd' Hn' Hp _. rewrite Hn in Hn'. injection Hn' as <-. congruence.
+Qed.
+
+(* ---- phase 2: committer, dumper, loader re-keying -------------------------------------------------------- *)
+Lemma key_block_unique Sl Sd Sf Dn T B I ks I' ks' k : Inv Sl Sd Sf Dn T B -> In (I, ks) B -> In (I', ks') B -> In k ks -> In k ks' -> I = I'.
+Proof.
+  intros H H1 H2 K1 K2.
+  assert (E1 : assoc k (expand B) = Some I) by (apply in_assoc; [exact (v_keys _ _ _ _ _ _ _ _ H)|apply expand_in; exists ks; auto]).
+  assert (E2 : assoc k (expand B) = Some I') by (apply in_assoc; [exact (v_keys _ _ _ _ _ _ _ _ H)|apply expand_in; exists ks'; auto]).
+  congruence.
+Qed.
+
+Lemma offset_of_inj l : forall g1 g2 off, offset_of g1 l = Some off -> offset_of g2 l = Some off -> g1 = g2.
+Proof.
+  induction l as [|[g x] l IH]; intros g1 g2 off H1 H2; simpl in *; [discriminate|].
+  destruct (Nat.eqb g1 g) eqn:E1, (Nat.eqb g2 g) eqn:E2.
+  - apply Nat.eqb_eq in E1. apply Nat.eqb_eq in E2. congruence.
+  - injection H1 as <-. destruct (offset_of g2 l); simpl in H2; discriminate.
+  - injection H2 as <-. destruct (offset_of g1 l); simpl in H1; discriminate.
+  - destruct (offset_of g1 l) as [o1|] eqn:O1; simpl in H1; [|discriminate]. destruct (offset_of g2 l) as [o2|] eqn:O2; simpl in H2; [|discriminate].
+    injection H1 as <-. injection H2 as E. apply (IH g1 g2 o1 O1). rewrite O2. f_equal. lia.
+Qed.
+
+Lemma offset_of_lt l : forall g off, offset_of g l = Some off -> off < List.length l.
+Proof.
+  induction l as [|[g' x] l IH]; intros g off H; simpl in *; [discriminate|].
+  destruct (Nat.eqb g g'); [injection H as <-; lia|]. destruct (offset_of g l) as [o|] eqn:O; simpl in H; [|discriminate].
+  injection H as <-. specialize (IH g o O). lia.
+Qed.
+
+Definition comm_state (T : tbl) : tbl :=
+  Tbl (index T ++ [(KF (S (next T)), Instr (next T) OCommitter)]) (absl T) (pref T) (Some (KF (S (next T)))) (S (S (next T))).
+
+Lemma comm_new_inv Sl Sd Sf Dn T B : Inv Sl Sd Sf Dn T B -> committer T = None ->
+  (exists i nd, In i Sl /\ nth_error nodes i = Some nd /\ strain nd && pers nd = true) ->
+  Inv Sl Sd Sf Dn (comm_state T) (B ++ [(Instr (next T) OCommitter, [KF (S (next T))])]).
+Proof.
+  intros H Hc Hwit. set (kc := KF (S (next T))). set (C := Instr (next T) OCommitter). set (T' := comm_state T).
+  destruct (kf_fresh _ _ _ _ _ _ (S (next T)) H ltac:(lia)) as [Hfi [Hfa Hfp]]. fold kc in Hfi, Hfa, Hfp.
+  assert (Hinc : incl B (B ++ [(C, [kc])])) by (intros x Hx; apply in_or_app; left; exact Hx).
+  assert (Hsame : same_kf T T' B) by (intros c J _ _; reflexivity).
+  assert (Hkeys : forall x, In x (map fst (expand (B ++ [(C, [kc])]))) <-> In x (map fst (expand B)) \/ x = kc).
+  { intros x. rewrite !expand_keys. split.
+    - intros [b [Hb Hx]]. apply in_app_or in Hb. destruct Hb as [Hb|[<-|[]]]; [left; exists b; auto|right]. destruct Hx as [<-|[]]. reflexivity.
+    - intros [[b [Hb Hx]]| ->]; [exists b; split; [apply in_or_app; left; exact Hb|exact Hx]|].
+      exists (C, [kc]). split; [apply in_or_app; right; left; reflexivity|left; reflexivity]. }
+  destruct (v_pers _ _ _ _ _ _ _ _ H) as [P1 P2 P3 PC P4].
+  constructor.
+  - unfold T', comm_state. simpl. rewrite expand_app, (v_idx _ _ _ _ _ _ _ _ H). reflexivity.
+  - rewrite map_app. simpl. apply NoDup_app_intro; [exact (v_ids _ _ _ _ _ _ _ _ H)|constructor; [intros []|constructor]|].
+    intros z Hz [<-|[]]. apply in_map_iff in Hz. destruct Hz as [b [E Hb]].
+    pose proof (proj1 (v_next _ _ _ _ _ _ _ _ H) b Hb) as X. unfold bid in *. simpl in E. lia.
+  - rewrite expand_app, map_app. apply NoDup_app_intro; [exact (v_keys _ _ _ _ _ _ _ _ H)|simpl; constructor; [intros []|constructor]|].
+    intros z Hz [<-|[]]. apply (proj2 (v_next _ _ _ _ _ _ _ _ H)) in Hz. lia.
+  - split.
+    + intros b Hb. apply in_app_or in Hb. simpl. destruct Hb as [Hb|[<-|[]]]; [pose proof (proj1 (v_next _ _ _ _ _ _ _ _ H) b Hb); lia|unfold bid; simpl; lia].
+    + intros c Hcc. apply Hkeys in Hcc. simpl. destruct Hcc as [Hcc|Hcc]; [pose proof (proj2 (v_next _ _ _ _ _ _ _ _ H) c Hcc); lia|]. unfold kc in Hcc. injection Hcc as ->. lia.
+  - intros x Hx. destruct (v_arows _ _ _ _ _ _ _ _ H x Hx) as [X|X]; [left; exact X|right; apply Hkeys; left; exact X].
+  - exact (v_prows _ _ _ _ _ _ _ _ H).
+  - exact (v_anodup _ _ _ _ _ _ _ _ H).
+  - constructor.
+    + intros j nd Hj Hn Hp Ht. apply (loader_mono B); [exact Hinc|exact (P1 j nd Hj Hn Hp Ht)].
+    + intros X. discriminate X.
+    + intros ck Hck. injection Hck as <-. exists (S (next T)), C. split; [reflexivity|]. split; [apply in_or_app; right; left; reflexivity|reflexivity].
+    + intros ck _. exact Hwit.
+    + intros ck l Hck Hl. injection Hck as <-. assert (Er : arow T' (KF (S (next T))) = []) by exact Hfa. unfold aget. rewrite Er. split; [simpl; lia|].
+      intros off. split.
+      * intros i nd Hi Hn Hsp _. rewrite (P2 Hc i nd Hi Hn) in Hsp. discriminate.
+      * intros _. destruct off; reflexivity.
+  - exact (v_rowsne _ _ _ _ _ _ _ _ H).
+  - exact (v_kgrow _ _ _ _ _ _ _ _ H).
+  - intros J ks Hin. apply in_app_or in Hin. destruct Hin as [Hin|[E|[]]].
+    + destruct (v_kinds _ _ _ _ _ _ _ _ H J ks Hin) as [i nd I Hi Hn Ho|i nd p c I Hi Hn Ht Hz Hp Ho Hr|g k I Ho Hp Hr Hk|i nd c I Hn Hsp Ho Hr|c I Ho Hcm].
+      * apply BFun; auto.
+      * apply (BGet a nodes Sf T' i nd p c I); auto.
+      * apply (BLoad a nodes Sf T' g k I); auto.
+      * apply (BDump a nodes Sf T' i nd c I); auto.
+      * rewrite Hc in Hcm. discriminate.
+    + injection E as <- <-. apply (BComm a nodes Sf T' (S (next T)) C); reflexivity.
+  - intros j Hj. destruct (v_fun _ _ _ _ _ _ _ _ H j Hj) as [ndj [J [Hnj [Hin Ho]]]]. exists ndj, J. split; [exact Hnj|]. split; [apply Hinc; exact Hin|exact Ho].
+  - intros j ndj p Hd Hnj Ht Hz Hp. destruct (v_get _ _ _ _ _ _ _ _ H j ndj p Hd Hnj Ht Hz Hp) as [x Hx].
+    exists x. apply (getter_mono T B); [exact Hinc|exact Hsame|exact Hx].
+  - intros j ndj Hnj. destruct (v_rows _ _ _ _ _ _ _ _ H j ndj Hnj) as [Hl Hq]. split; [exact Hl|].
+    intros q ip Hip. destruct (Hq q ip Hip) as [H1 H2]. split; [|exact H2].
+    intros Hd. destruct (H1 Hd) as [x [Hx Hs]]. exists x. split; [exact Hx|]. apply (srckey_mono T B); [exact Hinc|exact Hsame|exact Hs].
+  - intros j ndj Hnj. destruct (v_pref _ _ _ _ _ _ _ _ H j ndj Hnj) as [Q1 Q2]. split; [|exact Q2].
+    intros X Y. destruct (Q1 X Y) as [sk [E1 E2]]. exists sk. split; [exact E1|apply (statekey_mono B); [exact Hinc|exact E2]].
+Qed.
+
+Lemma trainer_in_mono Sd i g : trainer_in Sd g -> trainer_in (i :: Sd) g.
+Proof. intros [k [ndk [Hk X]]]. exists k, ndk. split; [right; exact Hk|exact X]. Qed.
+
+Lemma strain_train nd : strain nd = true -> is_train nd = true.
+Proof. unfold strain. intros X. apply andb_prop in X. tauto. Qed.
+
+Lemma crow_inv Sl Sd Sf Dn T B ck i nd off kd l : Inv Sl Sd Sf Dn T B -> committer T = Some ck -> a = Some l -> ~ In i Sd ->
+  nth_error nodes i = Some nd -> strain nd && pers nd = true -> offset a (ngid nd) = Some off -> dumper_of T B i kd ->
+  insert T ck kd (Some off) = Some (inserted T ck kd off) /\ Inv Sl (i :: Sd) Sf Dn (inserted T ck kd off) B.
+Proof.
+  intros H Hck Hl Hi Hn Hsp Hoff Hdump. set (T' := inserted T ck kd off).
+  destruct (v_pers _ _ _ _ _ _ _ _ H) as [P1 P2 P3 PC P4].
+  destruct (P3 ck Hck) as [cc [C [-> [HC HCo]]]]. destruct (P4 (KF cc) l Hck Hl) as [Hlen Hrow].
+  assert (Hst : is_train nd = true) by (apply andb_prop in Hsp; apply strain_train; tauto).
+  assert (Hother : forall i' nd', In i' Sd -> nth_error nodes i' = Some nd' -> strain nd' && pers nd' = true -> offset a (ngid nd') <> Some off).
+  { intros i' nd' Hi' Hn' Hsp' E. rewrite Hl in E, Hoff. simpl in E, Hoff.
+    pose proof (offset_of_inj l _ _ off E Hoff) as Eg.
+    assert (i' = i) by (apply (w_unique a nodes wf i' nd' i nd Hn' Hn); [apply andb_prop in Hsp'; apply strain_train; tauto|exact Hst|exact Eg]).
+    subst. contradiction. }
+  assert (Hfree : aget T (KF cc) off = None) by (apply (proj2 (Hrow off)); exact Hother).
+  assert (Hofflt : off < List.length l) by (rewrite Hl in Hoff; simpl in Hoff; exact (offset_of_lt l _ off Hoff)).
+  assert (Hold : forall k, k <> KF cc -> arow T' k = arow T k).
+  { intros k Hk. unfold T'. rewrite inserted_arow. apply key_eqb_neq in Hk. rewrite Hk. reflexivity. }
+  assert (Hkf : same_kf T T' B).
+  { intros c I Hin Hop. apply Hold. intros E. injection E as ->. apply Hop.
+    rewrite (key_block_unique _ _ _ _ _ _ I [KF cc] C [KF cc] (KF cc) H Hin HC (or_introl eq_refl) (or_introl eq_refl)). exact HCo. }
+  destruct Hdump as [cd [D [-> [HD [HDo HDr]]]]].
+  assert (Hcd : KF cd <> KF cc).
+  { intros E. injection E as ->. pose proof (key_block_unique _ _ _ _ _ _ D [KF cc] C [KF cc] (KF cc) H HD HC (or_introl eq_refl) (or_introl eq_refl)) as X.
+    subst D. rewrite HCo in HDo. discriminate. }
+  split; [apply insert_some_ok; exact Hfree|].
+  constructor.
+  - exact (v_idx _ _ _ _ _ _ _ _ H).
+  - exact (v_ids _ _ _ _ _ _ _ _ H).
+  - exact (v_keys _ _ _ _ _ _ _ _ H).
+  - exact (v_next _ _ _ _ _ _ _ _ H).
+  - intros k Hk. destruct (key_eq_dec k (KF cc)) as [->|Hne].
+    + right. apply expand_keys. exists (C, [KF cc]). split; [exact HC|left; reflexivity].
+    + rewrite (Hold k Hne) in Hk. exact (v_arows _ _ _ _ _ _ _ _ H k Hk).
+  - exact (v_prows _ _ _ _ _ _ _ _ H).
+  - split; [unfold T', inserted; simpl; apply assoc_set_nodup; exact (proj1 (v_anodup _ _ _ _ _ _ _ _ H))|exact (proj2 (v_anodup _ _ _ _ _ _ _ _ H))].
+  - constructor.
+    + intros j ndj Hj Hnj Hp Ht. apply (P1 j ndj Hj Hnj Hp). intros X. apply Ht. apply trainer_in_mono. exact X.
+    + intros X. unfold T', inserted in X. simpl in X. congruence.
+    + intros ck' Hck'. unfold T', inserted in Hck'. simpl in Hck'. exact (P3 ck' Hck').
+    + intros ck' Hck'. unfold T', inserted in Hck'. simpl in Hck'. exact (PC ck' Hck').
+    + intros ck' l' Hck' Hl'. unfold T', inserted in Hck'. simpl in Hck'. rewrite Hck in Hck'. injection Hck' as <-.
+      assert (l' = l) by congruence. subst l'. split.
+      * unfold T'. rewrite inserted_alen, key_eqb_refl. lia.
+      * intros off'. unfold T'. rewrite inserted_aget, key_eqb_refl. simpl. destruct (Nat.eqb off' off) eqn:Eo.
+        -- apply Nat.eqb_eq in Eo. subst off'. split.
+           ++ intros i' nd' [<-|Hi'] Hn' Hsp' Ho'; [|exfalso; exact (Hother i' nd' Hi' Hn' Hsp' Ho')].
+              exists (KF cd). split; [reflexivity|]. exists cd, D. split; [reflexivity|]. split; [exact HD|]. split; [exact HDo|].
+              fold T'. rewrite (Hold _ Hcd). exact HDr.
+           ++ intros X. exfalso. apply (X i nd (or_introl eq_refl) Hn Hsp). exact Hoff.
+        -- apply Nat.eqb_neq in Eo. destruct (Hrow off') as [R1 R2]. split.
+           ++ intros i' nd' [<-|Hi'] Hn' Hsp' Ho'.
+              ** rewrite Hn in Hn'. injection Hn' as <-. rewrite Hoff in Ho'. injection Ho' as E. exfalso. apply Eo. auto.
+              ** destruct (R1 i' nd' Hi' Hn' Hsp' Ho') as [k [Hk Hdk]]. exists k. split; [exact Hk|]. apply (dumper_mono T B); [intros x Hx; exact Hx|exact Hkf|exact Hdk].
+           ++ intros X. apply R2. intros i' nd' Hi' Hn' Hsp'. apply (X i' nd' (or_intror Hi') Hn' Hsp').
+  - split; [|exact (proj2 (v_rowsne _ _ _ _ _ _ _ _ H))].
+    intros k Hk. destruct (key_eq_dec k (KF cc)) as [->|Hne].
+    + intros Y. pose proof (inserted_alen T (KF cc) (KF cd) off (KF cc)) as Z. fold T' in Z. rewrite Y, key_eqb_refl in Z. simpl in Z. lia.
+    + rewrite (Hold k Hne). apply (proj1 (v_rowsne _ _ _ _ _ _ _ _ H)). unfold T' in Hk. apply inserted_keys in Hk. destruct Hk as [X|X]; [contradiction|exact X].
+  - intros g. rewrite Hold by discriminate. exact (v_kgrow _ _ _ _ _ _ _ _ H g).
+  - intros I ks Hin. apply (bkind_mono Sf T); [intros x Hx; exact Hx| |reflexivity|exact (v_kinds _ _ _ _ _ _ _ _ H I ks Hin)].
+    intros k -> _ Hop. apply Hold. intros E. subst k. apply Hop.
+    rewrite (key_block_unique _ _ _ _ _ _ I [KF cc] C [KF cc] (KF cc) H Hin HC (or_introl eq_refl) (or_introl eq_refl)). exact HCo.
+  - exact (v_fun _ _ _ _ _ _ _ _ H).
+  - intros j ndj p Hd Hnj Ht Hz Hp. destruct (v_get _ _ _ _ _ _ _ _ H j ndj p Hd Hnj Ht Hz Hp) as [x Hx].
+    exists x. apply (getter_mono T B); [intros y Hy; exact Hy|exact Hkf|exact Hx].
+  - intros j ndj Hnj. destruct (v_rows _ _ _ _ _ _ _ _ H j ndj Hnj) as [Hll Hq].
+    assert (E : arow T' (KU j) = arow T (KU j)) by (apply Hold; discriminate).
+    split; [rewrite E; exact Hll|]. intros q ip Hip. destruct (Hq q ip Hip) as [H1 H2]. unfold aget. rewrite E. split; [|exact H2].
+    intros Hd. destruct (H1 Hd) as [x [Hx Hs]]. exists x. split; [exact Hx|]. apply (srckey_mono T B); [intros y Hy; exact Hy|exact Hkf|exact Hs].
+  - exact (v_pref _ _ _ _ _ _ _ _ H).
+Qed.
+
+Lemma inv_sd Sl Sd Sf Dn T B i : Inv Sl Sd Sf Dn T B -> (forall nd, nth_error nodes i = Some nd -> strain nd && pers nd = false) ->
+  Inv Sl (i :: Sd) Sf Dn T B.
+Proof.
+  intros H Hno. destruct H as [V1 V2 V3 V4 V5 V6 V7 VP V9 V10 V11 V12 V13 V14 V15]. constructor; auto.
+  destruct VP as [P1 P2 P3 PC P4]. constructor; auto.
+  - intros j nd Hj Hn Hp Ht. apply (P1 j nd Hj Hn Hp). intros X. apply Ht. apply trainer_in_mono. exact X.
+  - intros Hc i' nd' [<-|Hi'] Hn'; [exact (Hno nd' Hn')|exact (P2 Hc i' nd' Hi' Hn')].
+  - intros ck l Hck Hl. destruct (P4 ck l Hck Hl) as [Hlen Hrow]. split; [exact Hlen|]. intros off. destruct (Hrow off) as [R1 R2]. split.
+    + intros i' nd' [<-|Hi'] Hn' Hsp Ho; [rewrite (Hno nd' Hn') in Hsp; discriminate|exact (R1 i' nd' Hi' Hn' Hsp Ho)].
+    + intros X. apply R2. intros i' nd' Hi'. apply (X i' nd' (or_intror Hi')).
+Qed.
+
+(* Index.reset of the loader registered under the group id *)
+Definition reset_state (T : tbl) (g : nat) (L : instr) : tbl :=
+  Tbl (assoc_del (KG g) (index T) ++ [(KF (next T), L)]) (absl T) (pref T) (committer T) (S (next T)).
+
+Lemma reset_inv Sl Sd Sf Dn T B g L : Inv Sl Sd Sf Dn T B -> In (L, [KG g]) B -> iop L = OLoader g -> trainer_in Sd g ->
+  exists B', index_reset T (KG g) = Some (reset_state T g L, KF (next T))
+    /\ Inv Sl Sd Sf Dn (reset_state T g L) B' /\ loader_at B' g (KF (next T)) /\ instr_at (reset_state T g L) (KG g) = None.
+Proof.
+  intros H HL HLo Htr. destruct (in_split _ _ HL) as [B1 [B2 EB]].
+  set (Bd := B1 ++ B2). set (Td := Tbl (assoc_del (KG g) (index T)) (absl T) (pref T) (committer T) (next T)).
+  assert (Hexp : expand B = expand B1 ++ (KG g, L) :: expand B2) by (rewrite EB, expand_app; reflexivity).
+  pose proof (v_keys _ _ _ _ _ _ _ _ H) as Hk. rewrite Hexp, map_app in Hk. simpl in Hk.
+  assert (Hk1 : ~ In (KG g) (map fst (expand B1))).
+  { intros X. apply NoDup_remove_2 in Hk. apply Hk. apply in_or_app. left. exact X. }
+  assert (Hk2 : ~ In (KG g) (map fst (expand B2))).
+  { intros X. apply NoDup_remove_2 in Hk. apply Hk. apply in_or_app. right. exact X. }
+  assert (Hidx : index Td = expand Bd).
+  { unfold Td, Bd. simpl. rewrite (v_idx _ _ _ _ _ _ _ _ H), Hexp, expand_app. apply assoc_del_split. exact Hk1. }
+  assert (Hsub : forall x, In x Bd -> In x B) by (intros x Hx; rewrite EB; apply in_app_or in Hx; apply in_or_app; destruct Hx; [left|right; right]; assumption).
+  assert (Hkeep : forall x, In x B -> x <> (L, [KG g]) -> In x Bd).
+  { intros x Hx Hne. rewrite EB in Hx. apply in_app_or in Hx. apply in_or_app. destruct Hx as [Hx|[Hx|Hx]]; [left; exact Hx|congruence|right; exact Hx]. }
+  assert (Hkeysd : forall k, In k (map fst (expand Bd)) <-> In k (map fst (expand B)) /\ k <> KG g).
+  { intros k. unfold Bd. rewrite expand_app, map_app, Hexp, map_app. simpl. rewrite !in_app_iff. simpl. split.
+    - intros [X|X]; (split; [tauto|intros ->; contradiction]).
+    - intros [[X|[X|X]] Hne]; [left; exact X|congruence|right; exact X]. }
+  assert (Hpa : persistent a g = true).
+  { destruct (v_kinds _ _ _ _ _ _ _ _ H L [KG g] HL) as [i nd I Hi Hn Ho|i nd p c I Hi Hn Ht Hz Hp Ho Hr|g' k I Ho Hp Hr Hkk|i nd c I Hn Hsp Ho Hr|c I Ho Hcm].
+    - unfold C01Inv.fop in Ho. rewrite HLo in Ho. discriminate.
+    - rewrite HLo in Ho. discriminate.
+    - rewrite HLo in Ho. injection Ho as ->. exact Hp.
+    - rewrite HLo in Ho. discriminate.
+    - rewrite HLo in Ho. discriminate. }
+  (* the table without the block *)
+  assert (Hd : Inv Sl Sd Sf Dn Td Bd).
+  { destruct (v_pers _ _ _ _ _ _ _ _ H) as [P1 P2 P3 PC P4]. constructor.
+    - exact Hidx.
+    - pose proof (v_ids _ _ _ _ _ _ _ _ H) as X. rewrite EB, map_app in X. simpl in X. apply NoDup_remove_1 in X. unfold Bd. rewrite map_app. exact X.
+    - unfold Bd. rewrite expand_app, map_app. apply NoDup_remove_1 in Hk. exact Hk.
+    - split; [intros b0 Hb; exact (proj1 (v_next _ _ _ _ _ _ _ _ H) b0 (Hsub b0 Hb))|intros c Hc; apply Hkeysd in Hc; exact (proj2 (v_next _ _ _ _ _ _ _ _ H) c (proj1 Hc))].
+    - intros k Hkk. destruct (v_arows _ _ _ _ _ _ _ _ H k Hkk) as [X|X]; [left; exact X|right]. apply Hkeysd. split; [exact X|].
+      intros ->. apply Hkk. exact (v_kgrow _ _ _ _ _ _ _ _ H g).
+    - exact (v_prows _ _ _ _ _ _ _ _ H).
+    - exact (v_anodup _ _ _ _ _ _ _ _ H).
+    - constructor.
+      + intros j nd Hj Hn Hp Ht. destruct (P1 j nd Hj Hn Hp Ht) as [I [Hin Ho]]. exists I. split; [|exact Ho].
+        apply Hkeep; [exact Hin|]. intros E. injection E as _ E. apply Ht. rewrite E. exact Htr.
+      + exact P2.
+      + intros ck Hck. destruct (P3 ck Hck) as [c [I [E [Hin Ho]]]]. exists c, I. split; [exact E|]. split; [|exact Ho]. apply Hkeep; [exact Hin|]. intros X. injection X as _ X. discriminate.
+      + exact PC.
+      + intros ck l Hck Hl. destruct (P4 ck l Hck Hl) as [Hlen Hrow]. split; [exact Hlen|]. intros off. destruct (Hrow off) as [R1 R2]. split; [|exact R2].
+        intros i nd Hi Hn Hsp Ho. destruct (R1 i nd Hi Hn Hsp Ho) as [k [Hkk [c [I [-> [Hin [Hop Hr]]]]]]]. exists (KF c). split; [exact Hkk|].
+        exists c, I. repeat split; auto. apply Hkeep; [exact Hin|]. intros X. injection X as _ X. discriminate.
+    - exact (v_rowsne _ _ _ _ _ _ _ _ H).
+    - exact (v_kgrow _ _ _ _ _ _ _ _ H).
+    - intros I ks Hin. apply (bkind_mono Sf T); [intros x Hx; exact Hx|intros k _ _ _; reflexivity|reflexivity|exact (v_kinds _ _ _ _ _ _ _ _ H I ks (Hsub _ Hin))].
+    - intros j Hj. destruct (v_fun _ _ _ _ _ _ _ _ H j Hj) as [ndj [I [Hnj [Hin Ho]]]]. exists ndj, I. split; [exact Hnj|]. split; [|exact Ho].
+      apply Hkeep; [exact Hin|]. intros X. injection X as _ X. unfold fkeys in X. discriminate.
+    - intros j ndj p Hdn Hnj Ht Hz Hp. destruct (v_get _ _ _ _ _ _ _ _ H j ndj p Hdn Hnj Ht Hz Hp) as [x [c [I [-> [Hin [Ho Hr]]]]]].
+      exists (KF c), c, I. repeat split; auto. apply Hkeep; [exact Hin|]. intros X. injection X as _ X. discriminate.
+    - intros j ndj Hnj. destruct (v_rows _ _ _ _ _ _ _ _ H j ndj Hnj) as [Hl Hq]. split; [exact Hl|].
+      intros q ip Hip. destruct (Hq q ip Hip) as [H1 H2]. split; [|exact H2].
+      intros Hdn. destruct (H1 Hdn) as [x [Hx [ndi [Hni Hs]]]]. exists x. split; [exact Hx|]. exists ndi. split; [exact Hni|].
+      destruct Hs as [Hs|[Hz [c [I [-> [Hin [Ho Hr]]]]]]]; [left; exact Hs|right]. split; [exact Hz|]. exists c, I. repeat split; auto.
+      apply Hkeep; [exact Hin|]. intros X. injection X as _ X. discriminate.
+    - intros j ndj Hnj. destruct (v_pref _ _ _ _ _ _ _ _ H j ndj Hnj) as [Q1 Q2]. split; [|exact Q2].
+      intros X Y. destruct (Q1 X Y) as [sk [E1 E2]]. exists sk. split; [exact E1|]. unfold C01Inv.statekey_ok in *.
+      destruct (strain ndj && pers ndj); [|exact E2]. destruct E2 as [[c ->] [I [Hin Ho]]]. split; [eauto|]. exists I. split; [|exact Ho].
+      apply Hkeep; [exact Hin|]. intros Z. injection Z as _ Z. discriminate. }
+  assert (HLat : assoc (KG g) (index T) = Some L).
+  { rewrite (v_idx _ _ _ _ _ _ _ _ H). apply in_assoc; [exact (v_keys _ _ _ _ _ _ _ _ H)|]. apply expand_in. exists [KG g]. split; [exact HL|left; reflexivity]. }
+  destruct (kf_fresh _ _ _ _ _ _ (next T) Hd (le_n _)) as [Hfi [Hfa _]].
+  exists (Bd ++ [(L, [KF (next T)])]). split; [|split; [|split]].
+  - unfold index_reset. rewrite HLat. simpl. unfold index_fresh, index_set. simpl. unfold instr_at in Hfi. simpl in Hfi. rewrite Hfi. reflexivity.
+  - apply (inv_snoc1 Sl Sd Sf Dn Td Bd L (KF (next T)) (S (next T)) Hd); [|pose proof (proj1 (v_next _ _ _ _ _ _ _ _ H) _ HL) as X; unfold bid in X; simpl in X; simpl; lia|simpl; lia|exact Hfi|intros c E; injection E as <-; lia|].
+    + intros X. pose proof (v_ids _ _ _ _ _ _ _ _ H) as Y. rewrite EB, map_app in Y. simpl in Y. apply NoDup_remove_2 in Y. apply Y. unfold Bd in X. rewrite map_app in X. exact X.
+    + apply (BLoad a nodes Sf Td g (KF (next T)) L); [exact HLo|exact Hpa|exact Hfa|right; eauto].
+  - exists L. split; [apply in_or_app; right; left; reflexivity|exact HLo].
+  - unfold instr_at, reset_state. simpl. rewrite assoc_app. change (assoc_del (KG g) (index T)) with (index Td). rewrite Hidx.
+    assert (X : assoc (KG g) (expand Bd) = None) by (apply assoc_none; intros Y; apply Hkeysd in Y; destruct Y as [_ Y]; apply Y; reflexivity).
+    rewrite X. simpl. reflexivity.
+Qed.
+
+Definition p2 (t : tbl) (i : nat) (n : node) : option (tbl * key) :=
+  if nstateful n && is_train n && (nstateful n && persistent a (ngid n)) then
+    bind (match committer t with
+          | Some c => Some (t, c)
+          | None => let '(t1, ci) := alloc t OCommitter in
+                    bind (index_fresh t1 ci) (fun tk => let '(t2, c) := tk in
+                      Some (Tbl (index t2) (absl t2) (pref t2) (Some c) (next t2), c))
+          end) (fun tc =>
+    let '(t, c) := tc in
+    let '(t1, di) := alloc t ODumper in
+    bind (index_fresh t1 di) (fun tk => let '(t2, d) := tk in
+    bind (insert t2 d (KU i) None) (fun t3 =>
+    bind (offset a (ngid n)) (fun off =>
+    bind (insert t3 c d (Some off)) (fun t4 => index_reset t4 (KG (ngid n)))))))
+  else Some (t, KG (ngid n)).
+
+Lemma add_split T i nd : nth_error nodes i = Some nd -> instr_at T (KU i) = None ->
+  add a nodes T i = bind (p1 T nd) (fun t1 => bind (p2 t1 i nd) (fun ts => finish (fst ts) i nd (snd ts))).
+Proof.
+  intros Hn Hku. unfold add. rewrite Hn. simpl. unfold instr_at in Hku. rewrite Hku. unfold p1, p2, finish.
+  destruct (nstateful nd && persistent a (ngid nd)); simpl.
+  - destruct (assoc (KG (ngid nd)) (index T)); simpl.
+    + destruct (nstateful nd && is_train nd); simpl; [|reflexivity].
+      destruct (committer T); simpl.
+      * destruct (index_fresh _ _) as [[t2 d]|]; simpl; [|reflexivity]. destruct (insert t2 d (KU i) None); simpl; [|reflexivity].
+        destruct (offset a (ngid nd)); simpl; [|reflexivity]. destruct (insert _ _ d _); simpl; [|reflexivity]. destruct (index_reset _ _) as [[t5 k5]|]; reflexivity.
+      * destruct (index_fresh _ _) as [[t2 c]|]; simpl; [|reflexivity].
+        destruct (index_fresh _ _) as [[t3 d]|]; simpl; [|reflexivity]. destruct (insert t3 d (KU i) None); simpl; [|reflexivity].
+        destruct (offset a (ngid nd)); simpl; [|reflexivity]. destruct (insert _ _ d _); simpl; [|reflexivity]. destruct (index_reset _ _) as [[t5 k5]|]; reflexivity.
+    + destruct (index_set _ _ _) as [t1|]; simpl; [|reflexivity].
+      destruct (nstateful nd && is_train nd); simpl; [|reflexivity].
+      destruct (committer t1); simpl.
+      * destruct (index_fresh _ _) as [[t2 d]|]; simpl; [|reflexivity]. destruct (insert t2 d (KU i) None); simpl; [|reflexivity].
+        destruct (offset a (ngid nd)); simpl; [|reflexivity]. destruct (insert _ _ d _); simpl; [|reflexivity]. destruct (index_reset _ _) as [[t5 k5]|]; reflexivity.
+      * destruct (index_fresh _ _) as [[t2 c]|]; simpl; [|reflexivity].
+        destruct (index_fresh _ _) as [[t3 d]|]; simpl; [|reflexivity]. destruct (insert t3 d (KU i) None); simpl; [|reflexivity].
+        destruct (offset a (ngid nd)); simpl; [|reflexivity]. destruct (insert _ _ d _); simpl; [|reflexivity]. destruct (index_reset _ _) as [[t5 k5]|]; reflexivity.
+  - rewrite andb_false_r. reflexivity.
+Qed.
+
+Lemma persistent_offset g : persistent a g = true -> exists l off, a = Some l /\ offset a g = Some off.
+Proof.
+  unfold persistent, offset. destruct a as [l|]; [|discriminate]. destruct (offset_of g l) as [off|]; [|discriminate].
+  intros _. exists l, off. auto.
+Qed.
+
+Lemma p2_inv S0 Dn T B i nd : Inv (i :: S0) S0 S0 Dn T B -> ~ In i S0 -> nth_error nodes i = Some nd ->
+  exists T2 B2 sk, p2 T i nd = Some (T2, sk) /\ Inv (i :: S0) (i :: S0) S0 Dn T2 B2
+    /\ (preset_of i nd = true -> statekey_ok B2 nd sk) /\ (is_train nd = true -> instr_at T2 (KG (ngid nd)) = None).
+Proof.
+  intros H Hi Hn. unfold p2. fold (strain nd). fold (C01Inv.pers a nd). destruct (strain nd && pers nd) eqn:Esp.
+  - (* the trained member of a persistent group *)
+    apply andb_prop in Esp. destruct Esp as [Es Ep]. pose proof (strain_train nd Es) as Et.
+    assert (Hpa : persistent a (ngid nd) = true) by (unfold C01Inv.pers in Ep; apply andb_prop in Ep; tauto).
+    destruct (persistent_offset _ Hpa) as [l [off [Hl Hoff]]].
+    assert (Hnt : ~ trainer_in S0 (ngid nd)).
+    { intros [k [ndk [Hk [Hnk [Htk Hg]]]]]. assert (k = i) by (apply (w_unique a nodes wf k ndk i nd Hnk Hn Htk Et Hg)). subst. contradiction. }
+    destruct (p_load _ _ _ _ _ _ (v_pers _ _ _ _ _ _ _ _ H) i nd (or_introl eq_refl) Hn Ep Hnt) as [L [HL HLo]].
+    (* committer *)
+    assert (Hcomm : exists T1 B1 ck, (match committer T with
+                      | Some c => Some (T, c)
+                      | None => let '(t1, ci) := alloc T OCommitter in
+                                bind (index_fresh t1 ci) (fun tk => let '(t2, c) := tk in Some (Tbl (index t2) (absl t2) (pref t2) (Some c) (next t2), c))
+                      end) = Some (T1, ck) /\ Inv (i :: S0) S0 S0 Dn T1 B1 /\ committer T1 = Some ck /\ incl B B1).
+    { destruct (committer T) as [ck|] eqn:Ec.
+      - exists T, B, ck. split; [reflexivity|]. split; [exact H|]. split; [exact Ec|intros x Hx; exact Hx].
+      - destruct (kf_fresh _ _ _ _ _ _ (S (next T)) H ltac:(lia)) as [Hfi _].
+        exists (comm_state T), (B ++ [(Instr (next T) OCommitter, [KF (S (next T))])]), (KF (S (next T))).
+        split; [unfold alloc, index_fresh, index_set; simpl; unfold instr_at in Hfi; rewrite Hfi; reflexivity|].
+        split; [apply comm_new_inv; [exact H|exact Ec|exists i, nd; split; [left; reflexivity|split; [exact Hn|rewrite Es, Ep; reflexivity]]]|]. split; [reflexivity|intros x Hx; apply in_or_app; left; exact Hx]. }
+    destruct Hcomm as [T1 [B1 [ck [Ecomm [H1 [Hck1 Hinc1]]]]]]. rewrite Ecomm. simpl.
+    (* dumper *)
+    destruct (kf_fresh _ _ _ _ _ _ (S (next T1)) H1 ltac:(lia)) as [Hfi [Hfa _]].
+    destruct (unary_reg_inv (i :: S0) S0 S0 Dn T1 B1 i ODumper H1) as [H2 Hrow].
+    { intros Hr. apply (BDump a nodes S0 (unary_state T1 i ODumper) i nd (S (next T1))); auto. rewrite Es, Ep. reflexivity. }
+    set (T2 := unary_state T1 i ODumper) in *. set (kd := KF (S (next T1))) in *. set (B2 := B1 ++ [(Instr (next T1) ODumper, [kd])]) in *.
+    assert (Hdump : dumper_of T2 B2 i kd).
+    { exists (S (next T1)), (Instr (next T1) ODumper). split; [reflexivity|]. split; [apply in_or_app; right; left; reflexivity|]. split; [reflexivity|exact Hrow]. }
+    assert (Hck2 : committer T2 = Some ck) by exact Hck1.
+    destruct (crow_inv (i :: S0) S0 S0 Dn T2 B2 ck i nd off kd l H2 Hck2 Hl Hi Hn) as [Eins H3]; [rewrite Es, Ep; reflexivity|exact Hoff|exact Hdump|].
+    set (T3 := inserted T2 ck kd off) in *.
+    (* re-keying of the loader *)
+    assert (HL3 : In (L, [KG (ngid nd)]) B2) by (apply in_or_app; left; apply Hinc1; exact HL).
+    destruct (reset_inv (i :: S0) (i :: S0) S0 Dn T3 B2 (ngid nd) L H3 HL3 HLo) as [B4 [Ereset [H4 [Hlat Hkg]]]].
+    { exists i, nd. split; [left; reflexivity|auto]. }
+    exists (reset_state T3 (ngid nd) L), B4, (KF (next T3)). split.
+    + unfold alloc, index_fresh, index_set. simpl. unfold instr_at in Hfi. fold kd. rewrite Hfi. simpl.
+      change (insert _ kd (KU i) None) with (insert (Tbl (index T1 ++ [(kd, Instr (next T1) ODumper)]) (absl T1) (pref T1) (committer T1) (S (S (next T1)))) kd (KU i) None).
+      rewrite insert_none_ok by exact Hfa. simpl. rewrite Hoff. simpl.
+      change (inserted _ kd (KU i) 0) with T2. rewrite Eins. simpl. exact Ereset.
+    + split; [exact H4|]. split; [|intros _; exact Hkg].
+      intros _. unfold C01Inv.statekey_ok. rewrite Es, Ep. simpl. split; [eauto|exact Hlat].
+  - exists T, B, (KG (ngid nd)). split; [reflexivity|]. split; [apply inv_sd; [exact H|]; intros nd' Hn'; rewrite Hn in Hn'; injection Hn' as <-; exact Esp|]. split.
+    + intros _. unfold C01Inv.statekey_ok. rewrite Esp. reflexivity.
+    + intros Et. apply (kg_absent_nopers _ _ _ _ _ _ i nd H Hi Hn Et).
+      unfold strain in Esp. rewrite Et, (w_train_stateful a nodes wf i nd Hn Et) in Esp. simpl in Esp. exact Esp.
+Qed.
+
+(* ---- one Table.add call, and the whole traversal ----------------------------------------------------------- *)
+Definition allp (S0 : list nat) : nat -> nat -> Prop := fun j _ => In j S0.
+
+Lemma add_step S0 T B i nd : Inv S0 S0 S0 (allp S0) T B -> ~ In i S0 -> nth_error nodes i = Some nd ->
+  exists T' B', add a nodes T i = Some T' /\ Inv (i :: S0) (i :: S0) (i :: S0) (allp (i :: S0)) T' B'.
+Proof.
+  intros H Hi Hn. pose proof (ku_absent _ _ _ _ _ _ _ H Hi) as Hku. rewrite (add_split T i nd Hn Hku).
+  destruct (p1_inv S0 (allp S0) T B i nd H Hi Hn) as [T1 [B1 [E1 H1]]]. rewrite E1. simpl.
+  destruct (p2_inv S0 (allp S0) T1 B1 i nd H1 Hi Hn) as [T2 [B2 [sk [E2 [H2 [Hsk Hkg]]]]]]. rewrite E2. simpl.
+  pose proof (ku_absent _ _ _ _ _ _ _ H2 Hi) as Hku2.
+  rewrite (finish_ok T2 i nd sk Hn Hku2 Hkg).
+  pose proof (reg_inv (i :: S0) (i :: S0) S0 (allp S0) T2 B2 i nd sk H2 Hi Hn Hkg Hsk) as H3.
   destruct (is_train nd) eqn:Et.
   - eexists. eexists. split; [reflexivity|].
-    apply (inv_ext a nodes wf (i :: S) (allp S)); [|exact H1].
+    apply (inv_ext a nodes wf (i :: S0) (i :: S0) (i :: S0) (allp S0)); [|exact H3].
     intros j ndj p Hnj Htj _. unfold allp. split; [intros X; right; exact X|].
     intros [<-|X]; [|exact X]. rewrite Hn in Hnj. injection Hnj as <-. rewrite Et in Htj. discriminate.
-  - destruct (update_inv (i :: S) (allp S) _ _ i nd H1 ltac:(left; reflexivity) Hn Et) as [T' [B' [Hc Hi']]].
+  - destruct (update_inv (i :: S0) (i :: S0) (i :: S0) (allp S0) _ _ i nd H3 ltac:(left; reflexivity) Hn Et) as [T' [B' [Hc Hi']]].
     + intros p X. exact (Hi X).
     + exists T', B'. split; [exact Hc|].
-      apply (inv_ext a nodes wf (i :: S) (Dnp (allp S) i (nszout nd))); [|exact Hi'].
+      apply (inv_ext a nodes wf (i :: S0) (i :: S0) (i :: S0) (Dnp (allp S0) i (nszout nd))); [|exact Hi'].
       intros j ndj p Hnj _ Hp. unfold Dnp, allp. split.
       * intros [X|[-> _]]; [right; exact X|left; reflexivity].
       * intros [<-|X]; [|left; exact X]. right. rewrite Hn in Hnj. injection Hnj as <-. auto.
 Qed.
 
-Lemma fold_add : forall visit S T B, Inv S (allp S) T B -> NoDup visit -> (forall i, In i visit -> ~ In i S) ->
+Lemma fold_add : forall visit S0 T B, Inv S0 S0 S0 (allp S0) T B -> NoDup visit -> (forall i, In i visit -> ~ In i S0) ->
   (forall i, In i visit -> i < List.length nodes) ->
-  exists T' B' S', fold_opt (add a nodes) visit T = Some T' /\ Inv S' (allp S') T' B' /\ (forall j, In j S' <-> In j visit \/ In j S).
+  exists T' B' S', fold_opt (add a nodes) visit T = Some T' /\ Inv S' S' S' (allp S') T' B' /\ (forall j, In j S' <-> In j visit \/ In j S0).
 Proof.
-  induction visit as [|i visit IH]; intros S T B H Hd Hdis Hlt; simpl.
-  - exists T, B, S. split; [reflexivity|]. split; [exact H|]. intros j. tauto.
+  induction visit as [|i visit IH]; intros S0 T B H Hd Hdis Hlt; simpl.
+  - exists T, B, S0. split; [reflexivity|]. split; [exact H|]. intros j. tauto.
   - inversion Hd as [|? ? Hni Hd']; subst.
     destruct (nth_error nodes i) as [nd|] eqn:Hn; [|apply nth_error_None in Hn; specialize (Hlt i (or_introl eq_refl)); lia].
-    destruct (add_step S T B i nd H (Hdis i (or_introl eq_refl)) Hn) as [T1 [B1 [Hc H1]]]. rewrite Hc. simpl.
-    destruct (IH (i :: S) T1 B1 H1 Hd') as [T' [B' [S' [Hc' [H' Hm]]]]].
+    destruct (add_step S0 T B i nd H (Hdis i (or_introl eq_refl)) Hn) as [T1 [B1 [Hc H1]]]. rewrite Hc. simpl.
+    destruct (IH (i :: S0) T1 B1 H1 Hd') as [T' [B' [S' [Hc' [H' Hm]]]]].
     + intros j Hj [<-|X]; [contradiction|]. exact (Hdis j (or_intror Hj) X).
     + intros j Hj. apply Hlt. right. exact Hj.
     + exists T', B', S'. split; [exact Hc'|]. split; [exact H'|]. intros j. rewrite Hm. simpl. intuition.
